@@ -1,780 +1,3 @@
-// GENERATED by harness/gen/zoo.py - build artefact, do not edit
-pub const GEN_HASH: &str = "ecf00ea4d97a6316";
-shredh::zoo_case!(c1, 1, 'a, WriteExpect<'a, D2>);
-shredh::zoo_case!(c9, 9, 'a, (Read<'a, D1, PanicHandler>, Option<Write<'a, D1>>, ));
-#[derive(SystemData)] pub struct Z17_0<'a>(pub Read<'a, D2, DefaultProvider>);
-shredh::zoo_case!(c17, 17, 'a, (Z17_0<'a>, ));
-#[derive(SystemData)] pub struct Z25_0<'a, U0>(Option<Read<'a, N0>>, U0) where U0: SystemData<'a>;
-shredh::zoo_case!(c25, 25, 'a, Z25_0<'a, Option<Read<'a, N0>>>);
-#[derive(SystemData)] pub struct Z33_1<'a, T0>(Write<'a, T0, PanicHandler>) where T0: Resource;
-#[derive(SystemData)] pub struct Z33_0<'a>(Z33_1<'a, N2>);
-shredh::zoo_case!(c33, 33, 'a, Z33_0<'a>);
-#[derive(SystemData)] pub struct Z41_0<'a, U0> where U0: SystemData<'a> { f0: U0, f1: Write<'a, D0>, }
-shredh::zoo_case!(c41, 41, 'a, Z41_0<'a, PhantomData<(Write<'a, D1>,)>>);
-#[derive(SystemData)] pub struct Z49_0<'a> { pub f0: (Option<Write<'a, N3>>, ), }
-shredh::zoo_case!(c49, 49, 'a, Z49_0<'a>);
-shredh::zoo_case!(c57, 57, 'a, ((Read<'a, D0, Hc<D1>>, ), ((), ), ));
-shredh::zoo_case!(c65, 65, 'a, (ReadExpect<'a, D1>, ));
-#[derive(SystemData)] pub struct Z73_1<'a, T0: Resource> { f0: Write<'a, T0, Hc<D0>>, }
-#[derive(SystemData)] pub struct Z73_0<'a>(Z73_1<'a, D2>, (Write<'a, D0>, ));
-shredh::zoo_case!(c73, 73, 'a, Z73_0<'a>);
-shredh::zoo_case!(c81, 81, 'a, (Write<'a, D1, DefaultProvider>, ));
-#[derive(SystemData)] pub struct Z89_0<'a> { pub f0: (Option<ReadExpect<'a, D2>>, ), pub f1: ((), ), }
-shredh::zoo_case!(c89, 89, 'a, Z89_0<'a>);
-shredh::zoo_case!(c97, 97, 'a, ((), ));
-shredh::zoo_case!(c105, 105, 'a, (Read<'a, N3, PanicHandler>, Option<Write<'a, D0>>, Read<'a, D0, DefaultProvider>, ));
-#[derive(SystemData)] pub struct Z113_0<'a>(Write<'a, D2, DefaultProvider>);
-shredh::zoo_case!(c113, 113, 'a, (Z113_0<'a>, Write<'a, D2, Hc<D1>>, ));
-#[derive(SystemData)] pub struct Z121_0<'a, T0, T1>(pub Option<Write<'a, T0>>, pub Read<'a, T1>, pub ()) where T0: Resource + ZRes, T1: Debug + Resource;
-shredh::zoo_case!(c121, 121, 'a, Z121_0<'a, D3, D3>);
-#[derive(SystemData)] pub struct Z129_0<'a, T0>(pub Option<Write<'a, T0>>, pub (Write<'a, D2, Hc<D1>>, )) where T0: Resource + ZRes;
-shredh::zoo_case!(c129, 129, 'a, Z129_0<'a, D1>);
-#[derive(SystemData)] pub struct Z137_0<'a> { f0: ReadExpect<'a, D1>, f1: Write<'a, D1, PanicHandler>, f2: Write<'a, D1, PanicHandler>, }
-shredh::zoo_case!(c137, 137, 'a, Z137_0<'a>);
-#[derive(SystemData)] pub struct Z145_1<'a> { pub f0: Read<'a, D2, Hc<D0>>, }
-#[derive(SystemData)] pub struct Z145_0<'a> { pub f0: Write<'a, D2, Hc<D0>>, pub f1: Z145_1<'a>, }
-shredh::zoo_case!(c145, 145, 'a, Z145_0<'a>);
-shredh::zoo_case!(c153, 153, 'a, ReadExpect<'a, N2>);
-shredh::zoo_case!(c161, 161, 'a, (Read<'a, D2, DefaultProvider>, Read<'a, D1, PanicHandler>, ));
-#[derive(SystemData)] pub struct Z169_0<'a, T0>(pub Read<'a, T0, PanicHandler>) where T0: Debug + Resource;
-shredh::zoo_case!(c169, 169, 'a, (Z169_0<'a, N3>, ));
-#[derive(SystemData)] pub struct Z177_0<'a>(pub Read<'a, D0, Hc<D2>>, pub ReadExpect<'a, D2>);
-shredh::zoo_case!(c177, 177, 'a, Z177_0<'a>);
-#[derive(SystemData)] pub struct Z185_1<'a, T0>(Write<'a, T0>) where T0: Resource + ZRes;
-#[derive(SystemData)] pub struct Z185_0<'a>(pub Z185_1<'a, D3>);
-shredh::zoo_case!(c185, 185, 'a, Z185_0<'a>);
-#[derive(SystemData)] pub struct Z193_0<'a, U0, T0: Resource + ZRes> where U0: SystemData<'a> { pub f0: U0, pub f1: ReadExpect<'a, T0>, }
-shredh::zoo_case!(c193, 193, 'a, Z193_0<'a, PhantomData<(Write<'a, D1>,)>, N0>);
-#[derive(SystemData)] pub struct Z201_1<'a> { f0: Read<'a, D2, Hc<D3>>, }
-#[derive(SystemData)] pub struct Z201_0<'a> { f0: Z201_1<'a>, }
-shredh::zoo_case!(c201, 201, 'a, Z201_0<'a>);
-#[derive(SystemData)] pub struct Z209_0<'a>(pub Write<'a, D3, Hc<D2>>);
-shredh::zoo_case!(c209, 209, 'a, ((Read<'a, D3, Hc<D2>>, ), Z209_0<'a>, ));
-shredh::zoo_case!(c217, 217, 'a, (Write<'a, D1, Hc<D0>>, ));
-#[derive(SystemData)] pub struct Z225_1<'a>(Read<'a, D3, Hc<D0>>);
-#[derive(SystemData)] pub struct Z225_2<'a, T0: Debug + Resource>(pub Write<'a, T0, Hc<D3>>);
-#[derive(SystemData)] pub struct Z225_0<'a>(Z225_1<'a>, Z225_2<'a, D0>);
-shredh::zoo_case!(c225, 225, 'a, Z225_0<'a>);
-#[derive(SystemData)] pub struct Z233_0<'a>(pub Option<WriteExpect<'a, D1>>);
-shredh::zoo_case!(c233, 233, 'a, Z233_0<'a>);
-#[derive(SystemData)] pub struct Z241_0<'a> { pub f0: (Read<'a, D1>, ), pub f1: (Read<'a, D1, PanicHandler>, ), }
-shredh::zoo_case!(c241, 241, 'a, Z241_0<'a>);
-#[derive(SystemData)] pub struct Z249_0<'a> { f0: Read<'a, D1>, }
-shredh::zoo_case!(c249, 249, 'a, Z249_0<'a>);
-shredh::zoo_case!(c257, 257, 'a, (Read<'a, D2, DefaultProvider>, Read<'a, D2, DefaultProvider>, Read<'a, D2, DefaultProvider>, ));
-#[derive(SystemData)] pub struct Z265_0<'a> { f0: Option<Read<'a, D3, PanicHandler>>, }
-shredh::zoo_case!(c265, 265, 'a, (Z265_0<'a>, ReadExpect<'a, D3>, ));
-#[derive(SystemData)] pub struct Z273_0<'a>(pub Write<'a, N2, PanicHandler>, pub Read<'a, N2, PanicHandler>, pub Option<Write<'a, N2>>);
-shredh::zoo_case!(c273, 273, 'a, Z273_0<'a>);
-#[derive(SystemData)] pub struct Z281_1<'a, T0>(pub Option<ReadExpect<'a, T0>>) where T0: Resource;
-#[derive(SystemData)] pub struct Z281_0<'a, U0>(U0, Z281_1<'a, D2>) where U0: SystemData<'a>;
-shredh::zoo_case!(c281, 281, 'a, Z281_0<'a, Read<'a, D2, Hc<D1>>>);
-#[derive(SystemData)] pub struct Z289_0<'a, U0: SystemData<'a>> { pub f0: WriteExpect<'a, D2>, pub f1: ReadExpect<'a, N3>, pub f2: U0, }
-shredh::zoo_case!(c289, 289, 'a, Z289_0<'a, Read<'a, N3, PanicHandler>>);
-#[derive(SystemData)] pub struct Z297_0<'a, U0: SystemData<'a>> { pub f0: Write<'a, D2, Hc<D1>>, pub f1: U0, }
-shredh::zoo_case!(c297, 297, 'a, Z297_0<'a, (Option<Write<'a, D1, PanicHandler>>, )>);
-shredh::zoo_case!(c305, 305, 'a, Read<'a, D1, DefaultProvider>);
-shredh::zoo_case!(c313, 313, 'a, (PhantomData<u8>, ReadExpect<'a, N0>, ));
-shredh::zoo_case!(c321, 321, 'a, ((Read<'a, D1, PanicHandler>, ), ));
-#[derive(SystemData)] pub struct Z329_0<'a, T0>(pub Read<'a, T0, Hc<D2>>, pub Write<'a, D2, Hc<D1>>) where T0: Resource;
-shredh::zoo_case!(c329, 329, 'a, Z329_0<'a, D1>);
-#[derive(SystemData)] pub struct Z337_1<'a> { pub f0: Option<WriteExpect<'a, D2>>, }
-#[derive(SystemData)] pub struct Z337_0<'a>(pub Z337_1<'a>);
-shredh::zoo_case!(c337, 337, 'a, Z337_0<'a>);
-#[derive(SystemData)] pub struct Z345_0<'a, T0: Resource> { pub f0: Read<'a, T0, Hc<D0>>, pub f1: PhantomData<T0>, }
-shredh::zoo_case!(c345, 345, 'a, Z345_0<'a, D3>);
-#[derive(SystemData)] pub struct Z353_0<'a> { f0: (Read<'a, D0, Hc<D3>>, ), }
-shredh::zoo_case!(c353, 353, 'a, Z353_0<'a>);
-#[derive(SystemData)] pub struct Z361_0<'a, T0>(Read<'a, T0, DefaultProvider>) where T0: Debug + Resource + Default;
-shredh::zoo_case!(c361, 361, 'a, ((WriteExpect<'a, D2>, ), Z361_0<'a, D2>, ));
-shredh::zoo_case!(c369, 369, 'a, (Write<'a, D0, PanicHandler>, ));
-#[derive(SystemData)] pub struct Z377_1<'a>(PhantomData<&'a u8>);
-#[derive(SystemData)] pub struct Z377_0<'a>(Z377_1<'a>, (Read<'a, N3, PanicHandler>, ));
-shredh::zoo_case!(c377, 377, 'a, Z377_0<'a>);
-#[derive(SystemData)] pub struct Z385_0<'a>(Write<'a, D3, PanicHandler>);
-shredh::zoo_case!(c385, 385, 'a, Z385_0<'a>);
-#[derive(SystemData)] pub struct Z393_1<'a> { pub f0: Read<'a, D1, Hc<D3>>, }
-#[derive(SystemData)] pub struct Z393_2<'a, T0> where T0: Debug + Resource + for<'b> Hrtb<'b> { f0: Read<'a, T0, PanicHandler>, }
-#[derive(SystemData)] pub struct Z393_0<'a> { f0: Z393_1<'a>, f1: Z393_2<'a, D3>, }
-shredh::zoo_case!(c393, 393, 'a, Z393_0<'a>);
-#[derive(SystemData)] pub struct Z401_0<'a, T0: Resource + ZRes> { pub f0: Option<Read<'a, T0, PanicHandler>>, }
-shredh::zoo_case!(c401, 401, 'a, Z401_0<'a, N0>);
-shredh::zoo_case!(c409, 409, 'a, ((), Option<Read<'a, N1>>, Write<'a, D2>, ));
-#[derive(SystemData)] pub struct Z417_0<'a, T0: Resource + ZRes> { pub f0: ReadExpect<'a, T0>, }
-shredh::zoo_case!(c417, 417, 'a, (Z417_0<'a, N2>, Write<'a, N2, PanicHandler>, ));
-#[derive(SystemData)] pub struct Z425_0<'a, T0: Resource, T1: Resource>(Write<'a, T0>, Read<'a, D0, DefaultProvider>, Option<Write<'a, T1, PanicHandler>>);
-shredh::zoo_case!(c425, 425, 'a, Z425_0<'a, D0, D2>);
-#[derive(SystemData)] pub struct Z433_0<'a, U0: SystemData<'a>>(pub U0, pub (Write<'a, D1, DefaultProvider>, ));
-shredh::zoo_case!(c433, 433, 'a, Z433_0<'a, Read<'a, D1>>);
-#[derive(SystemData)] pub struct Z441_0<'a, T0: Resource + ZRes, T1: Debug + Resource + for<'b> Hrtb<'b> + Default> { f0: Option<Write<'a, T0, PanicHandler>>, f1: PhantomData<(Write<'a, D1>,)>, f2: Write<'a, T1>, }
-shredh::zoo_case!(c441, 441, 'a, Z441_0<'a, D3, D1>);
-#[derive(SystemData)] pub struct Z449_0<'a> { pub f0: (Write<'a, D2, Hc<D0>>, ), pub f1: Write<'a, D0, Hc<D2>>, }
-shredh::zoo_case!(c449, 449, 'a, Z449_0<'a>);
-shredh::zoo_case!(c457, 457, 'a, Option<Read<'a, N0, PanicHandler>>);
-shredh::zoo_case!(c465, 465, 'a, (Write<'a, D0, DefaultProvider>, Write<'a, D0, Hc<D1>>, ));
-#[derive(SystemData)] pub struct Z473_0<'a> { pub f0: Write<'a, N1, PanicHandler>, }
-shredh::zoo_case!(c473, 473, 'a, (Z473_0<'a>, ));
-#[derive(SystemData)] pub struct Z481_0<'a>(pub Read<'a, D0>, pub Write<'a, D1, Hc<D0>>);
-shredh::zoo_case!(c481, 481, 'a, Z481_0<'a>);
-shredh::zoo_case!(c489, 489, 'a, ((Option<Read<'a, N3, PanicHandler>>, ), ));
-#[derive(SystemData)] pub struct Z497_0<'a> { f0: Option<Write<'a, D2, PanicHandler>>, f1: Option<Read<'a, D2, PanicHandler>>, }
-shredh::zoo_case!(c497, 497, 'a, Z497_0<'a>);
-#[derive(SystemData)] pub struct Z505_0<'a> { f0: (Read<'a, D0, Hc<D3>>, ), }
-shredh::zoo_case!(c505, 505, 'a, Z505_0<'a>);
-#[derive(SystemData)] pub struct Z513_0<'a>(Option<ReadExpect<'a, N2>>);
-shredh::zoo_case!(c513, 513, 'a, ((PhantomData<&'a u8>, ), Z513_0<'a>, ));
-shredh::zoo_case!(c521, 521, 'a, (PhantomData<&'a u8>, ));
-#[derive(SystemData)] pub struct Z529_1<'a, T0: Debug + Resource + for<'b> Hrtb<'b>> { f0: Write<'a, T0, Hc<D1>>, }
-#[derive(SystemData)] pub struct Z529_2<'a>(pub Option<Read<'a, D1, PanicHandler>>);
-#[derive(SystemData)] pub struct Z529_0<'a>(pub Z529_1<'a, D3>, pub Z529_2<'a>);
-shredh::zoo_case!(c529, 529, 'a, Z529_0<'a>);
-shredh::zoo_case!(c537, 537, 'a, (Read<'a, D3, DefaultProvider>, ));
-#[derive(SystemData)] pub struct Z545_1<'a> { pub f0: Write<'a, D1>, }
-#[derive(SystemData)] pub struct Z545_2<'a>(pub Read<'a, D1, DefaultProvider>);
-#[derive(SystemData)] pub struct Z545_0<'a> { f0: Z545_1<'a>, f1: Z545_2<'a>, }
-shredh::zoo_case!(c545, 545, 'a, Z545_0<'a>);
-#[derive(SystemData)] pub struct Z553_0<'a, T0: Debug + Resource> { f0: Option<Write<'a, T0>>, }
-shredh::zoo_case!(c553, 553, 'a, Z553_0<'a, D0>);
-shredh::zoo_case!(c561, 561, 'a, (Option<WriteExpect<'a, N2>>, Option<Read<'a, D3>>, ReadExpect<'a, D3>, ));
-#[derive(SystemData)] pub struct Z569_0<'a> { pub f0: Option<ReadExpect<'a, D1>>, }
-shredh::zoo_case!(c569, 569, 'a, (Z569_0<'a>, PhantomData<&'a u8>, ));
-#[derive(SystemData)] pub struct Z577_0<'a, U0, U1>(U0, Write<'a, N0, PanicHandler>, U1) where U0: SystemData<'a>, U1: SystemData<'a>;
-shredh::zoo_case!(c577, 577, 'a, Z577_0<'a, Read<'a, N0, PanicHandler>, Write<'a, N2, PanicHandler>>);
-#[derive(SystemData)] pub struct Z585_0<'a, U0, T0: Debug + Resource>(U0, Write<'a, T0, PanicHandler>) where U0: SystemData<'a>;
-shredh::zoo_case!(c585, 585, 'a, Z585_0<'a, (Read<'a, D2, DefaultProvider>, ), D2>);
-#[derive(SystemData)] pub struct Z593_0<'a> { f0: (), f1: (), f2: WriteExpect<'a, D2>, }
-shredh::zoo_case!(c593, 593, 'a, Z593_0<'a>);
-#[derive(SystemData)] pub struct Z601_1<'a> { pub f0: Option<Read<'a, D1, PanicHandler>>, }
-#[derive(SystemData)] pub struct Z601_0<'a> { f0: Z601_1<'a>, f1: Write<'a, D1, Hc<D0>>, }
-shredh::zoo_case!(c601, 601, 'a, Z601_0<'a>);
-#[derive(SystemData)] pub struct Z609_0<'a> { pub f0: Read<'a, D3, Hc<D1>>, pub f1: Write<'a, D1, Hc<D3>>, }
-shredh::zoo_case!(c609, 609, 'a, Z609_0<'a>);
-#[derive(SystemData)] pub struct Z617_1<'a, T0: Resource + ZRes> { f0: Option<Write<'a, T0>>, }
-#[derive(SystemData)] pub struct Z617_0<'a> { pub f0: (Write<'a, D2, Hc<D3>>, ), pub f1: Z617_1<'a, D2>, }
-shredh::zoo_case!(c617, 617, 'a, Z617_0<'a>);
-#[derive(SystemData)] pub struct Z625_0<'a, T0: Resource> { pub f0: Read<'a, D0>, pub f1: WriteExpect<'a, T0>, pub f2: PhantomData<dyn Send>, }
-shredh::zoo_case!(c625, 625, 'a, Z625_0<'a, D0>);
-#[derive(SystemData)] pub struct Z633_0<'a>(pub (Read<'a, D0>, ));
-shredh::zoo_case!(c633, 633, 'a, Z633_0<'a>);
-#[derive(SystemData)] pub struct Z641_0<'a, U0: SystemData<'a>>(U0, Read<'a, N2, PanicHandler>);
-shredh::zoo_case!(c641, 641, 'a, Z641_0<'a, ()>);
-#[derive(SystemData)] pub struct Z649_1<'a> { pub f0: Write<'a, D1, Hc<D3>>, }
-#[derive(SystemData)] pub struct Z649_0<'a, T0: Debug + Resource + for<'b> Hrtb<'b>>(Write<'a, T0, DefaultProvider>, Z649_1<'a>);
-shredh::zoo_case!(c649, 649, 'a, Z649_0<'a, D1>);
-#[derive(SystemData)] pub struct Z657_0<'a, T0: Debug + Resource, T1: Resource + ZRes>(ReadExpect<'a, T0>, Option<WriteExpect<'a, T1>>, Write<'a, N2, PanicHandler>);
-shredh::zoo_case!(c657, 657, 'a, Z657_0<'a, N2, N2>);
-#[derive(SystemData)] pub struct Z665_1<'a, T0>(Read<'a, T0>) where T0: Debug + Resource + for<'b> Hrtb<'b> + Default;
-#[derive(SystemData)] pub struct Z665_0<'a>(Z665_1<'a, D2>, (Read<'a, D2, Hc<D3>>, ));
-shredh::zoo_case!(c665, 665, 'a, Z665_0<'a>);
-shredh::zoo_case!(c673, 673, 'a, (Write<'a, D3, DefaultProvider>, WriteExpect<'a, N1>, ));
-#[derive(SystemData)] pub struct Z681_0<'a, T0, T1: Debug + Resource + for<'b> Hrtb<'b>> where T0: Debug + Resource + for<'b> Hrtb<'b> + Default { pub f0: Read<'a, T0>, pub f1: Read<'a, T1, PanicHandler>, }
-shredh::zoo_case!(c681, 681, 'a, Z681_0<'a, D0, N3>);
-#[derive(SystemData)] pub struct Z689_1<'a, T0>(Write<'a, T0, Hc<D1>>) where T0: Resource + ZRes;
-#[derive(SystemData)] pub struct Z689_0<'a>(pub Read<'a, D2, DefaultProvider>, pub Z689_1<'a, D2>);
-shredh::zoo_case!(c689, 689, 'a, Z689_0<'a>);
-shredh::zoo_case!(c697, 697, 'a, (ReadExpect<'a, D0>, Read<'a, D0, Hc<D1>>, ));
-#[derive(SystemData)] pub struct Z705_0<'a> { pub f0: Read<'a, D2>, pub f1: Write<'a, N1, PanicHandler>, }
-shredh::zoo_case!(c705, 705, 'a, Z705_0<'a>);
-#[derive(SystemData)] pub struct Z713_1<'a>(Read<'a, D3>);
-#[derive(SystemData)] pub struct Z713_0<'a>(pub Option<Write<'a, D3>>, pub Z713_1<'a>);
-shredh::zoo_case!(c713, 713, 'a, Z713_0<'a>);
-shredh::zoo_case!(c721, 721, 'a, (Write<'a, D2, PanicHandler>, (), ));
-shredh::zoo_case!(c729, 729, 'a, (Option<WriteExpect<'a, N3>>, Option<Write<'a, N2>>, ));
-shredh::zoo_case!(c737, 737, 'a, ((Read<'a, D1, DefaultProvider>, ), Read<'a, D1, Hc<D0>>, ));
-shredh::zoo_case!(c745, 745, 'a, (Read<'a, N0, PanicHandler>, ReadExpect<'a, D1>, ));
-#[derive(SystemData)] pub struct Z753_0<'a, T0, T1: Debug + Resource> where T0: Debug + Resource + for<'b> Hrtb<'b> { f0: Write<'a, T0, PanicHandler>, f1: Write<'a, T1, DefaultProvider>, }
-shredh::zoo_case!(c753, 753, 'a, Z753_0<'a, D0, D0>);
-#[derive(SystemData)] pub struct Z761_1<'a> { pub f0: WriteExpect<'a, N3>, }
-#[derive(SystemData)] pub struct Z761_0<'a>(Z761_1<'a>, ());
-shredh::zoo_case!(c761, 761, 'a, Z761_0<'a>);
-shredh::zoo_case!(c769, 769, 'a, (Write<'a, D1, DefaultProvider>, Read<'a, D2, DefaultProvider>, ));
-#[derive(SystemData)] pub struct Z777_0<'a, T0> where T0: Debug + Resource + Default { pub f0: Write<'a, T0>, pub f1: ReadExpect<'a, N3>, }
-shredh::zoo_case!(c777, 777, 'a, Z777_0<'a, D0>);
-#[derive(SystemData)] pub struct Z785_1<'a>(PhantomData<&'a u8>);
-#[derive(SystemData)] pub struct Z785_0<'a>(pub Write<'a, D3, Hc<D1>>, pub Z785_1<'a>);
-shredh::zoo_case!(c785, 785, 'a, Z785_0<'a>);
-shredh::zoo_case!(c793, 793, 'a, (Read<'a, D1>, Write<'a, D3, PanicHandler>, ));
-#[derive(SystemData)] pub struct Z801_0<'a> { f0: WriteExpect<'a, N3>, f1: Option<Write<'a, N3>>, }
-shredh::zoo_case!(c801, 801, 'a, Z801_0<'a>);
-#[derive(SystemData)] pub struct Z809_0<'a>(Write<'a, D0, PanicHandler>, (Write<'a, D0, Hc<D3>>, ));
-shredh::zoo_case!(c809, 809, 'a, Z809_0<'a>);
-shredh::zoo_case!(c817, 817, 'a, (Write<'a, D2, PanicHandler>, Write<'a, D0>, ));
-#[derive(SystemData)] pub struct Z825_0<'a, T0> where T0: Debug + Resource + for<'b> Hrtb<'b> + Default { pub f0: Write<'a, T0, DefaultProvider>, pub f1: ReadExpect<'a, D0>, }
-shredh::zoo_case!(c825, 825, 'a, Z825_0<'a, D0>);
-#[derive(SystemData)] pub struct Z833_1<'a> { f0: Option<Write<'a, D1, PanicHandler>>, }
-#[derive(SystemData)] pub struct Z833_0<'a>(WriteExpect<'a, D1>, Z833_1<'a>);
-shredh::zoo_case!(c833, 833, 'a, Z833_0<'a>);
-shredh::zoo_case!(c841, 841, 'a, (WriteExpect<'a, N2>, Read<'a, D0>, ));
-#[derive(SystemData)] pub struct Z849_0<'a> { f0: WriteExpect<'a, N0>, f1: Option<Read<'a, N0>>, }
-shredh::zoo_case!(c849, 849, 'a, Z849_0<'a>);
-#[derive(SystemData)] pub struct Z857_1<'a> { f0: Read<'a, D3, DefaultProvider>, }
-#[derive(SystemData)] pub struct Z857_0<'a>(ReadExpect<'a, D3>, Z857_1<'a>);
-shredh::zoo_case!(c857, 857, 'a, Z857_0<'a>);
-shredh::zoo_case!(c865, 865, 'a, (Read<'a, D3, Hc<D1>>, WriteExpect<'a, D3>, ));
-#[derive(SystemData)] pub struct Z873_0<'a, T0: Debug + Resource> { f0: Read<'a, D3>, f1: Write<'a, T0, Hc<D2>>, }
-shredh::zoo_case!(c873, 873, 'a, Z873_0<'a, D3>);
-#[derive(SystemData)] pub struct Z881_1<'a>(Read<'a, D3, DefaultProvider>);
-#[derive(SystemData)] pub struct Z881_0<'a, T0>(pub Z881_1<'a>, pub Write<'a, T0, PanicHandler>) where T0: Debug + Resource;
-shredh::zoo_case!(c881, 881, 'a, Z881_0<'a, D3>);
-shredh::zoo_case!(c889, 889, 'a, (Read<'a, D2, PanicHandler>, Write<'a, D3, Hc<D2>>, ));
-#[derive(SystemData)] pub struct Z897_0<'a> { pub f0: Option<Read<'a, N1>>, pub f1: Option<Write<'a, D3>>, }
-shredh::zoo_case!(c897, 897, 'a, Z897_0<'a>);
-shredh::zoo_case!(c905, 905, 'a, ((), Option<ReadExpect<'a, D3>>, ));
-shredh::zoo_case!(c913, 913, 'a, ((), (), Read<'a, D2, PanicHandler>, (), (), ));
-shredh::zoo_case!(c921, 921, 'a, ((), (), (), (), Write<'a, D1, DefaultProvider>, (), ));
-shredh::zoo_case!(c929, 929, 'a, ((), (), (), (), (), Write<'a, D0, Hc<D0>>, (), ));
-shredh::zoo_case!(c937, 937, 'a, ((), (), (), (), (), Write<'a, D3, DefaultProvider>, (), (), ));
-shredh::zoo_case!(c945, 945, 'a, ((), (), (), (), Option<Write<'a, N3, PanicHandler>>, (), (), (), (), (), ));
-shredh::zoo_case!(c953, 953, 'a, ((), Read<'a, D2, Hc<D2>>, (), (), (), (), (), (), (), (), (), (), (), ));
-shredh::zoo_case!(c961, 961, 'a, ((), (), (), (), (), (), (), (), (), Write<'a, D1, Hc<D1>>, (), (), (), ));
-shredh::zoo_case!(c969, 969, 'a, ((), (), (), Write<'a, N1, PanicHandler>, (), (), (), (), (), (), (), (), (), (), (), ));
-shredh::zoo_case!(c977, 977, 'a, ((), (), (), (), (), (), (), (), (), (), (), Option<Write<'a, N0, PanicHandler>>, (), (), (), ));
-shredh::zoo_case!(c985, 985, 'a, ((), (), (), Option<Write<'a, N3>>, (), (), (), (), (), (), (), (), (), (), (), (), (), (), (), (), (), ));
-shredh::zoo_case!(c993, 993, 'a, ((), (), (), (), (), (), (), (), (), (), (), Write<'a, D2, Hc<D2>>, (), (), (), (), (), (), (), (), (), ));
-shredh::zoo_case!(c1001, 1001, 'a, ((), (), (), (), (), (), (), (), (), (), (), (), (), (), (), (), (), (), (), Read<'a, N0, PanicHandler>, (), ));
-shredh::zoo_case!(c1009, 1009, 'a, ((), (), (), (), (), PhantomData<(Write<'a, D1>,)>, (), (), (), (), (), (), (), (), (), (), (), (), (), (), (), (), (), (), (), (), ));
-shredh::zoo_case!(c1017, 1017, 'a, ((), (), (), (), (), (), (), (), (), (), (), (), (), ReadExpect<'a, N3>, (), (), (), (), (), (), (), (), (), (), (), (), ));
-shredh::zoo_case!(c1025, 1025, 'a, ((), (), (), (), (), (), (), (), (), (), (), (), (), (), (), (), (), (), (), (), (), Read<'a, N3, PanicHandler>, (), (), (), (), ));
-shredh::zoo_case!(c1033, 1033, 'a, ((), (), (), (), (), Write<'a, D2, DefaultProvider>, (), (), (), (), (), (), (), (), (), (), (), (), (), (), (), ));
-shredh::zoo_case!(c1041, 1041, 'a, ((), (), (), (), (), (), (), (), (), (), (), (), Read<'a, D0, DefaultProvider>, ));
-shredh::zoo_case!(c1049, 1049, 'a, ((), (), ReadExpect<'a, N0>, (), (), (), (), (), (), (), (), (), (), ));
-shredh::zoo_case!(c1057, 1057, 'a, ((), (), (), (), (), (), (), (), (), (), (), Write<'a, D0>, (), (), (), (), (), (), (), (), (), ));
-shredh::zoo_case!(c1065, 1065, 'a, ((), (), (), (), (), (), (), (), (), (), (), Write<'a, D2>, (), (), (), (), (), (), (), (), (), (), (), (), (), (), ));
-shredh::zoo_case!(c1073, 1073, 'a, ((), (), (), (), (), (), (), (), (), (), (), WriteExpect<'a, D3>, (), (), (), (), (), (), (), (), (), (), (), (), (), (), ));
-shredh::zoo_case!(c1081, 1081, 'a, ((), (), (), (), (), (), (), (), (), (), (), (), Write<'a, D1, Hc<D1>>, (), (), (), (), (), (), (), (), (), (), (), (), (), ));
-shredh::zoo_case!(c1089, 1089, 'a, ((), (), (), (), (), Read<'a, D3>, ));
-shredh::zoo_case!(c1097, 1097, 'a, ((), (), (), (), WriteExpect<'a, N1>, (), (), (), (), (), (), (), (), (), (), ));
-shredh::zoo_case!(c1105, 1105, 'a, ((), (), (), (), (), (), (), (), (), (), (), (), (), (), (), (), (), Read<'a, D1>, (), (), (), ));
-shredh::zoo_case!(c1113, 1113, 'a, ((), (), (), (), (), (), (), (), (), (), (), (), (), (), (), (), (), (), PhantomData<&'a u8>, (), (), (), (), (), (), (), ));
-shredh::zoo_case!(c1121, 1121, 'a, ((), (), Write<'a, D0, Hc<D0>>, (), (), (), (), (), (), (), (), (), (), (), (), ));
-shredh::zoo_case!(c1129, 1129, 'a, ((), (), PhantomData<[u32]>, (), (), (), (), (), (), (), (), (), (), ));
-shredh::zoo_case!(c1137, 1137, 'a, ((), (), (), Write<'a, D3, DefaultProvider>, (), (), (), (), (), (), (), (), (), ));
-shredh::zoo_case!(c1145, 1145, 'a, ((), (), (), (), (), (), Read<'a, D0, DefaultProvider>, (), (), (), (), (), (), ));
-shredh::zoo_case!(c1153, 1153, 'a, ((), (), (), (), (), (), (), (), (), (), (), (), (), (), (), (), (), (), (), PhantomData<fn() -> N2>, (), ));
-shredh::zoo_case!(c1161, 1161, 'a, ((), (), (), (), (), Option<ReadExpect<'a, D0>>, ));
-shredh::zoo_case!(c1169, 1169, 'a, (WriteExpect<'a, N1>, (), (), ));
-shredh::zoo_case!(c1177, 1177, 'a, ((), (), (), (), (), Write<'a, D3, Hc<D3>>, (), (), (), (), (), (), (), ));
-shredh::zoo_case!(c1185, 1185, 'a, ((), (), (), (), (), (), (), (), Write<'a, D0, Hc<D0>>, (), ));
-shredh::zoo_case!(c1193, 1193, 'a, (PhantomData<[u32]>, (), (), (), (), (), ));
-shredh::zoo_case!(c1201, 1201, 'a, ((), (), (), (), (), (), (), (), (), (), (), (), ReadExpect<'a, D3>, (), (), (), (), (), (), (), (), ));
-shredh::zoo_case!(c1209, 1209, 'a, ((), (), (), (), (), (), (), (), (), (), Option<Write<'a, D2>>, (), (), ));
-shredh::zoo_case!(c1217, 1217, 'a, ((), (), (), (), (), (), (), (), (), (), Read<'a, D2, DefaultProvider>, (), (), (), (), (), (), (), (), (), (), (), (), (), (), (), ));
-shredh::zoo_case!(c1225, 1225, 'a, ((), (), (), (), (), (), (), (), (), (), (), (), (), (), (), (), Write<'a, N1, PanicHandler>, (), (), (), (), ));
-shredh::zoo_case!(c1233, 1233, 'a, ((), (), (), (), (), (), (), (), (), (), (), (), (), (), Write<'a, D0, Hc<D0>>, ));
-shredh::zoo_case!(c1241, 1241, 'a, ((), Write<'a, D0>, (), (), (), (), (), (), (), (), (), (), (), ));
-shredh::zoo_case!(c1249, 1249, 'a, ((), (), (), Option<WriteExpect<'a, N2>>, (), (), (), (), (), (), (), (), (), (), (), ));
-shredh::zoo_case!(c1257, 1257, 'a, (Write<'a, D3, Hc<D3>>, ));
-shredh::zoo_case!(c1265, 1265, 'a, ((), (), (), (), (), (), (), (), (), (), (), (), (), (), (), Write<'a, D2, Hc<D2>>, (), (), (), (), (), ));
-shredh::zoo_case!(c1273, 1273, 'a, ((), (), (), Write<'a, D3>, (), (), (), (), (), (), (), (), (), (), (), (), (), (), (), (), (), (), (), (), (), (), ));
-shredh::zoo_case!(c1281, 1281, 'a, ((), (), (), (), (), (), (), (), Option<Read<'a, N3>>, (), (), (), (), (), (), (), (), (), (), (), (), ));
-shredh::zoo_case!(c1289, 1289, 'a, ((), Read<'a, D3, Hc<D3>>, (), (), (), (), (), (), (), (), (), (), (), (), (), (), (), (), (), (), (), ));
-shredh::zoo_case!(c1297, 1297, 'a, ((), (), (), ReadExpect<'a, N1>, (), (), (), (), (), (), ));
-shredh::zoo_case!(c1305, 1305, 'a, ((), WriteExpect<'a, D1>, (), (), (), (), (), ));
-shredh::zoo_case!(c1313, 1313, 'a, ((), (), (), (), (), Option<Write<'a, N2, PanicHandler>>, (), (), ));
-shredh::zoo_case!(c1321, 1321, 'a, ((), (), (), (), (), (), (), Option<Write<'a, N0, PanicHandler>>, (), (), (), (), (), (), (), ));
-shredh::zoo_case!(c1329, 1329, 'a, ((), (), (), (), (), (), (), (), (), (), PhantomData<fn() -> N2>, (), (), ));
-shredh::zoo_case!(c1337, 1337, 'a, ((), (), (), (), Option<ReadExpect<'a, N0>>, (), (), (), (), (), (), (), (), (), (), (), (), (), (), (), (), ));
-shredh::zoo_case!(c1345, 1345, 'a, ((), (), (), (), (), (), (), (), (), (), (), (), Option<Write<'a, N3>>, (), (), (), (), (), (), (), (), (), (), (), (), (), ));
-shredh::zoo_case!(c1353, 1353, 'a, ((), (), (), (), Read<'a, D0>, (), (), (), (), (), (), (), (), (), (), (), (), (), (), (), (), (), (), (), (), (), ));
-shredh::zoo_case!(c1361, 1361, 'a, ((), (), (), (), (), (), (), (), (), (), WriteExpect<'a, N1>, (), (), ));
-shredh::zoo_case!(c1369, 1369, 'a, ((), (), (), Option<Read<'a, N0>>, (), (), ));
-shredh::zoo_case!(c1377, 1377, 'a, ((), (), Write<'a, D1>, (), (), (), (), (), ));
-shredh::zoo_case!(c1385, 1385, 'a, ((), (), (), (), (), (), (), (), (), (), (), (), (), PhantomData<fn() -> N2>, (), (), (), (), (), (), (), (), (), (), (), (), ));
-shredh::zoo_case!(c1393, 1393, 'a, ((), (), (), (), (), (), (), (), (), (), (), (), (), (), (), (), Write<'a, D2, DefaultProvider>, (), (), (), (), (), (), (), (), (), ));
-shredh::zoo_case!(c1401, 1401, 'a, (Option<Read<'a, N3, PanicHandler>>, ));
-shredh::zoo_case!(c1409, 1409, 'a, (ReadExpect<'a, D3>, Option<Read<'a, D0>>, Read<'a, D1, DefaultProvider>, ));
-shredh::zoo_case!(c1417, 1417, 'a, (Read<'a, N1, PanicHandler>, Option<ReadExpect<'a, N2>>, Read<'a, D3>, Read<'a, D4, PanicHandler>, Option<Read<'a, N0, PanicHandler>>, ));
-shredh::zoo_case!(c1425, 1425, 'a, (Read<'a, D6, DefaultProvider>, ReadExpect<'a, N2>, Option<Read<'a, D4>>, Read<'a, D0, DefaultProvider>, ReadExpect<'a, N1>, Option<Read<'a, N5>>, Read<'a, D7, DefaultProvider>, ));
-shredh::zoo_case!(c1433, 1433, 'a, (Read<'a, D21, DefaultProvider>, Read<'a, D5, PanicHandler>, Option<Read<'a, D18>>, Read<'a, D3>, Read<'a, N0, PanicHandler>, Option<Read<'a, D7>>, Read<'a, D10>, ReadExpect<'a, D15>, Option<Read<'a, D19>>, ));
-shredh::zoo_case!(c1441, 1441, 'a, (Read<'a, N9, PanicHandler>, Option<Read<'a, N14>>, Read<'a, D0, DefaultProvider>, ReadExpect<'a, D25>, Option<Read<'a, N24, PanicHandler>>, Read<'a, D13>, ReadExpect<'a, N19>, Option<ReadExpect<'a, N15>>, Read<'a, D1>, ReadExpect<'a, D23>, Option<ReadExpect<'a, D17>>, ));
-shredh::zoo_case!(c1449, 1449, 'a, (Read<'a, D25, DefaultProvider>, Read<'a, D23, PanicHandler>, Option<Read<'a, N10>>, Read<'a, D6, DefaultProvider>, ReadExpect<'a, N20>, Option<Read<'a, D1>>, Read<'a, D18>, Read<'a, D21, PanicHandler>, Option<Read<'a, D9>>, Read<'a, D16, DefaultProvider>, Read<'a, N0, PanicHandler>, Option<ReadExpect<'a, D4>>, Read<'a, D3, DefaultProvider>, ));
-shredh::zoo_case!(c1457, 1457, 'a, (Read<'a, D1>, ReadExpect<'a, D24>, Option<ReadExpect<'a, N18>>, Read<'a, D5>, ReadExpect<'a, D9>, Option<Read<'a, N13>>, Read<'a, D14>, Read<'a, N4, PanicHandler>, Option<Read<'a, N19>>, Read<'a, D10>, Read<'a, D8, PanicHandler>, Option<ReadExpect<'a, N16>>, Read<'a, D21, DefaultProvider>, ReadExpect<'a, N2>, Option<Read<'a, N20, PanicHandler>>, ));
-shredh::zoo_case!(c1465, 1465, 'a, (Read<'a, D17, DefaultProvider>, ReadExpect<'a, N9>, Option<Read<'a, D7>>, Read<'a, D8, DefaultProvider>, Read<'a, N6, PanicHandler>, Option<ReadExpect<'a, N15>>, Read<'a, D0, DefaultProvider>, ReadExpect<'a, N2>, Option<ReadExpect<'a, D11>>, Read<'a, D19, DefaultProvider>, Read<'a, D20, PanicHandler>, Option<Read<'a, N1, PanicHandler>>, Read<'a, D10, DefaultProvider>, Read<'a, D25, PanicHandler>, Option<ReadExpect<'a, D16>>, Read<'a, D22, DefaultProvider>, ReadExpect<'a, D12>, ));
-shredh::zoo_case!(c1473, 1473, 'a, (Read<'a, D15, DefaultProvider>, Read<'a, D14, PanicHandler>, Option<ReadExpect<'a, D20>>, Read<'a, D6>, Read<'a, N24, PanicHandler>, Option<Read<'a, N25, PanicHandler>>, Read<'a, D8, DefaultProvider>, Read<'a, N21, PanicHandler>, Option<Read<'a, D13>>, Read<'a, D11, DefaultProvider>, Read<'a, N17, PanicHandler>, Option<ReadExpect<'a, D9>>, Read<'a, D12>, ReadExpect<'a, N0>, Option<Read<'a, N16, PanicHandler>>, Read<'a, D5>, Read<'a, N19, PanicHandler>, Option<ReadExpect<'a, D3>>, Read<'a, D4>, ));
-shredh::zoo_case!(c1481, 1481, 'a, (Read<'a, D12>, ReadExpect<'a, D24>, Option<Read<'a, D20, PanicHandler>>, Read<'a, D17, DefaultProvider>, Read<'a, D3, PanicHandler>, Option<Read<'a, N11, PanicHandler>>, Read<'a, D5>, ReadExpect<'a, N9>, Option<ReadExpect<'a, N10>>, Read<'a, D15>, ReadExpect<'a, N25>, Option<ReadExpect<'a, N0>>, Read<'a, D18, DefaultProvider>, Read<'a, N4, PanicHandler>, Option<Read<'a, N19, PanicHandler>>, Read<'a, D22>, Read<'a, D8, PanicHandler>, Option<Read<'a, N16, PanicHandler>>, Read<'a, D2>, Read<'a, D14, PanicHandler>, Option<Read<'a, D7, PanicHandler>>, ));
-shredh::zoo_case!(c1489, 1489, 'a, (Read<'a, D9, PanicHandler>, Option<Read<'a, N20, PanicHandler>>, Read<'a, D6>, ReadExpect<'a, D5>, Option<ReadExpect<'a, N17>>, Read<'a, D8, DefaultProvider>, Read<'a, N21, PanicHandler>, Option<Read<'a, N16>>, Read<'a, D7, DefaultProvider>, Read<'a, D1, PanicHandler>, Option<Read<'a, N13, PanicHandler>>, Read<'a, D14, DefaultProvider>, ReadExpect<'a, N11>, Option<Read<'a, N22, PanicHandler>>, Read<'a, D10, DefaultProvider>, Read<'a, N18, PanicHandler>, Option<Read<'a, D2>>, Read<'a, D24>, ReadExpect<'a, D12>, Option<ReadExpect<'a, N23>>, Read<'a, D0, DefaultProvider>, ReadExpect<'a, D4>, Option<Read<'a, N15>>, ));
-shredh::zoo_case!(c1497, 1497, 'a, (Read<'a, N8, PanicHandler>, Option<Read<'a, D25, PanicHandler>>, Read<'a, D7>, Read<'a, N11, PanicHandler>, Option<Read<'a, N13, PanicHandler>>, Read<'a, D23>, ReadExpect<'a, N22>, Option<Read<'a, D10, PanicHandler>>, Read<'a, D21, DefaultProvider>, ReadExpect<'a, N3>, Option<Read<'a, N17>>, Read<'a, D9, DefaultProvider>, Read<'a, D12, PanicHandler>, Option<ReadExpect<'a, N2>>, Read<'a, D24>, Read<'a, D20, PanicHandler>, Option<Read<'a, N5, PanicHandler>>, Read<'a, D4, DefaultProvider>, Read<'a, N19, PanicHandler>, Option<Read<'a, N0>>, Read<'a, D16>, ReadExpect<'a, N15>, Option<Read<'a, N14>>, Read<'a, D6, DefaultProvider>, ReadExpect<'a, N1>, ));
-#[derive(SystemData)] pub struct Z1505_0<'a, U0: SystemData<'a>, T0: Resource, T1: Debug + Resource> { f0: U0, f1: Write<'a, T0, DefaultProvider>, f2: Read<'a, T1, DefaultProvider>, }
-shredh::zoo_case!(c1505, 1505, 'a, Z1505_0<'a, Write<'a, D1, DefaultProvider>, D2, D3>);
-#[derive(SystemData)] pub struct Z1513_0<'a, U0: SystemData<'a>> { f0: Read<'a, D4, DefaultProvider>, f1: U0, f2: Read<'a, D4>, }
-shredh::zoo_case!(c1513, 1513, 'a, Z1513_0<'a, Read<'a, D2, Hc<D1>>>);
-#[derive(SystemData)] pub struct Z1521_1<'a, T0: Resource + ZRes + Default> { pub f0: Write<'a, T0, DefaultProvider>, pub f1: ReadExpect<'a, D4>, }
-#[derive(SystemData)] pub struct Z1521_0<'a, U0, U1> where U0: SystemData<'a>, U1: SystemData<'a> { f0: U0, f1: Write<'a, D3>, f2: U1, }
-shredh::zoo_case!(c1521, 1521, 'a, Z1521_0<'a, Read<'a, D1, DefaultProvider>, Z1521_1<'a, D2>>);
-#[derive(SystemData)] pub struct Z1529_0<'a, U0: SystemData<'a>>(pub Read<'a, D2>, pub U0, pub Read<'a, D2>);
-shredh::zoo_case!(c1529, 1529, 'a, Z1529_0<'a, Write<'a, D3, DefaultProvider>>);
-#[derive(SystemData)] pub struct Z1537_0<'a, U0: SystemData<'a>>(Read<'a, D1, DefaultProvider>, Write<'a, D3, DefaultProvider>, U0);
-shredh::zoo_case!(c1537, 1537, 'a, Z1537_0<'a, Read<'a, D0, Hc<D4>>>);
-#[derive(SystemData)] pub struct Z1545_0<'a, T0: Resource, T1: Debug + Resource, T2: Debug + Resource>(pub Write<'a, T0, PanicHandler>, pub Option<Read<'a, T1, PanicHandler>>, pub Option<Write<'a, N10, PanicHandler>>, pub Read<'a, T2, Hc<D1>>, pub Write<'a, D1, Hc<D18>>, pub (), pub PhantomData<D0>, pub Read<'a, D23>, pub Write<'a, D5, DefaultProvider>, pub ReadExpect<'a, D22>, pub Write<'a, N9, PanicHandler>, pub Option<ReadExpect<'a, D7>>, pub Option<Write<'a, N8>>, pub Read<'a, D15, Hc<D11>>, pub Write<'a, D11, Hc<D24>>, pub (), pub PhantomData<D0>, pub Read<'a, D13, DefaultProvider>);
-shredh::zoo_case!(c1545, 1545, 'a, Z1545_0<'a, D21, N12, D17>);
-shredh::zoo_case!(c1553, 1553, 'a, (Read<'a, D1, Hc<D4>>, Write<'a, D4, Hc<D2>>, (), PhantomData<&'a u8>, ));
-shredh::zoo_case!(c1561, 1561, 'a, (Read<'a, D0, PanicHandler>, WriteExpect<'a, D16>, Option<ReadExpect<'a, N20>>, Option<Write<'a, D2>>, Read<'a, D15, Hc<D8>>, Write<'a, D8, Hc<D7>>, (), PhantomData<&'a u8>, Read<'a, D9>, Write<'a, D22, DefaultProvider>, ReadExpect<'a, N24>, Write<'a, D18, PanicHandler>, Option<ReadExpect<'a, N13>>, ));
-shredh::zoo_case!(c1569, 1569, 'a, (Write<'a, D9, DefaultProvider>, Read<'a, N20, PanicHandler>, WriteExpect<'a, N13>, Option<Read<'a, D14>>, Option<Write<'a, D25>>, Read<'a, D18, Hc<D11>>, Write<'a, D11, Hc<D0>>, (), PhantomData<u8>, Read<'a, D12>, Write<'a, D22>, Read<'a, D4, PanicHandler>, WriteExpect<'a, D19>, Option<Read<'a, N8>>, ));
-shredh::zoo_case!(c1577, 1577, 'a, ((), PhantomData<str>, Read<'a, D18>, Write<'a, D2, DefaultProvider>, Read<'a, D5, PanicHandler>, WriteExpect<'a, D22>, Option<Read<'a, D1, PanicHandler>>, Option<Write<'a, D17, PanicHandler>>, Read<'a, D12, Hc<D13>>, Write<'a, D13, Hc<D14>>, (), PhantomData<D0>, Read<'a, D19>, Write<'a, D3, DefaultProvider>, ReadExpect<'a, N15>, WriteExpect<'a, N9>, Option<Read<'a, D24, PanicHandler>>, Option<Write<'a, D8>>, Read<'a, D10, Hc<D7>>, ));
-#[derive(SystemData)] pub struct Z1585_0<'a>(ReadExpect<'a, D21>, Write<'a, N24, PanicHandler>, Option<Read<'a, N1, PanicHandler>>, Option<Write<'a, D15, PanicHandler>>, Read<'a, D3, Hc<D5>>, Write<'a, D5, Hc<D2>>, (), PhantomData<[u32]>, Read<'a, D7, DefaultProvider>, Write<'a, D22>, Read<'a, N20, PanicHandler>, WriteExpect<'a, N13>, Option<Read<'a, N12>>, Option<WriteExpect<'a, N11>>, Read<'a, D25, Hc<D16>>, Write<'a, D16, Hc<D19>>, (), PhantomData<dyn Send>, Read<'a, D18>, Write<'a, D4, DefaultProvider>, Read<'a, N8, PanicHandler>, WriteExpect<'a, N17>, Option<Read<'a, N9>>, Option<Write<'a, N10>>, Read<'a, D0, Hc<D21>>);
-shredh::zoo_case!(c1585, 1585, 'a, Z1585_0<'a>);
-#[derive(SystemData)] pub struct Z1593_0<'a, T0> where T0: Debug + Resource + for<'b> Hrtb<'b> + Default { pub f0: (), pub f1: (), pub f2: Read<'a, D2>, pub f3: Read<'a, T0>, }
-#[derive(SystemData)] pub struct Z1593_1<'a> { pub f0: Write<'a, D2, Hc<D0>>, }
-shredh::zoo_case!(c1593, 1593, 'a, ((Z1593_0<'a, D3>, Z1593_1<'a>, Write<'a, D2, DefaultProvider>, ), (Read<'a, D3, Hc<D4>>, ), ));
-#[derive(SystemData)] pub struct Z1601_2<'a> { f0: (), f1: (), f2: Option<Write<'a, D2, PanicHandler>>, }
-#[derive(SystemData)] pub struct Z1601_3<'a>(pub Read<'a, D2, Hc<D0>>, pub WriteExpect<'a, N3>);
-#[derive(SystemData)] pub struct Z1601_1<'a> { pub f0: Z1601_2<'a>, pub f1: Z1601_3<'a>, }
-#[derive(SystemData)] pub struct Z1601_0<'a> { pub f0: ((Option<ReadExpect<'a, D0>>, Option<Read<'a, N3>>, Read<'a, D2, DefaultProvider>, ), ((), Option<Read<'a, D2, PanicHandler>>, ), ), pub f1: Z1601_1<'a>, }
-shredh::zoo_case!(c1601, 1601, 'a, Z1601_0<'a>);
-#[derive(SystemData)] pub struct Z1609_1<'a> { pub f0: ReadExpect<'a, D4>, pub f1: (ReadExpect<'a, D1>, Option<ReadExpect<'a, D4>>, Write<'a, D0>, ), }
-#[derive(SystemData)] pub struct Z1609_2<'a, U0: SystemData<'a>, U1: SystemData<'a>> { pub f0: Read<'a, D0, DefaultProvider>, pub f1: Read<'a, D1, DefaultProvider>, pub f2: U0, pub f3: U1, }
-#[derive(SystemData)] pub struct Z1609_3<'a> { pub f0: (Option<ReadExpect<'a, D4>>, Option<Write<'a, D4, PanicHandler>>, ), }
-#[derive(SystemData)] pub struct Z1609_0<'a, T0: Resource + ZRes> { f0: Z1609_1<'a>, f1: (Z1609_2<'a, Read<'a, D4, DefaultProvider>, Option<Read<'a, D4>>>, ((), ), (Option<Read<'a, D3>>, ), ), f2: Read<'a, T0, PanicHandler>, f3: Z1609_3<'a>, }
-shredh::zoo_case!(c1609, 1609, 'a, Z1609_0<'a, D4>);
-#[derive(SystemData)] pub struct Z1617_2<'a, T0, T1>(pub Option<Write<'a, T0, PanicHandler>>, pub Write<'a, T1, PanicHandler>, pub Read<'a, D4>) where T0: Resource, T1: Resource + ZRes;
-#[derive(SystemData)] pub struct Z1617_1<'a, U0: SystemData<'a>> { f0: U0, f1: Z1617_2<'a, D4, D4>, }
-#[derive(SystemData)] pub struct Z1617_4<'a>(pub WriteExpect<'a, N3>, pub ReadExpect<'a, N3>);
-#[derive(SystemData)] pub struct Z1617_5<'a>(pub Read<'a, D4, DefaultProvider>, pub (), pub ());
-#[derive(SystemData)] pub struct Z1617_3<'a, U0: SystemData<'a>, U1: SystemData<'a>>(pub U0, pub Z1617_4<'a>, pub U1);
-#[derive(SystemData)] pub struct Z1617_0<'a, T0: Resource> { f0: Z1617_1<'a, Option<WriteExpect<'a, D0>>>, f1: Z1617_3<'a, Read<'a, D2, DefaultProvider>, Z1617_5<'a>>, f2: PhantomData<str>, f3: ReadExpect<'a, T0>, }
-shredh::zoo_case!(c1617, 1617, 'a, Z1617_0<'a, D2>);
-#[derive(SystemData)] pub struct Z1625_0<'a, U0, U1>(U0, Option<Write<'a, D1>>, U1) where U0: SystemData<'a>, U1: SystemData<'a>;
-shredh::zoo_case!(c1625, 1625, 'a, (Z1625_0<'a, Write<'a, D1>, WriteExpect<'a, D1>>, ));
-#[derive(SystemData)] pub struct Z1633_0<'a, T0: Debug + Resource> { pub f0: ((), ), pub f1: Read<'a, T0, DefaultProvider>, }
-shredh::zoo_case!(c1633, 1633, 'a, Z1633_0<'a, D3>);
-#[derive(SystemData)] pub struct Z1641_1<'a, T0>(pub WriteExpect<'a, T0>, pub ReadExpect<'a, D0>) where T0: Resource + ZRes;
-#[derive(SystemData)] pub struct Z1641_3<'a> { f0: Read<'a, D3>, }
-#[derive(SystemData)] pub struct Z1641_4<'a, T0: Resource>(Write<'a, T0>);
-#[derive(SystemData)] pub struct Z1641_2<'a>(Z1641_3<'a>, Z1641_4<'a, D2>);
-#[derive(SystemData)] pub struct Z1641_5<'a, T0>(Write<'a, D0, Hc<D3>>, Write<'a, T0, Hc<D0>>, PhantomData<T0>) where T0: Debug + Resource;
-#[derive(SystemData)] pub struct Z1641_0<'a, T0> where T0: Resource { f0: (Z1641_1<'a, D3>, Option<WriteExpect<'a, D0>>, (Read<'a, D1, DefaultProvider>, ), ), f1: Z1641_2<'a>, f2: Z1641_5<'a, D2>, f3: Option<WriteExpect<'a, T0>>, }
-shredh::zoo_case!(c1641, 1641, 'a, Z1641_0<'a, D0>);
-#[derive(SystemData)] pub struct Z1649_2<'a> { f0: Option<Write<'a, D1>>, }
-#[derive(SystemData)] pub struct Z1649_3<'a> { f0: Read<'a, D0, DefaultProvider>, f1: Read<'a, D0, Hc<D1>>, f2: PhantomData<u8>, }
-#[derive(SystemData)] pub struct Z1649_1<'a, U0: SystemData<'a>>(Write<'a, D0, DefaultProvider>, Z1649_2<'a>, U0, ());
-#[derive(SystemData)] pub struct Z1649_0<'a>(pub (), pub Z1649_1<'a, Z1649_3<'a>>);
-shredh::zoo_case!(c1649, 1649, 'a, Z1649_0<'a>);
-#[derive(SystemData)] pub struct Z1657_2<'a> { f0: Read<'a, D0, DefaultProvider>, f1: Read<'a, D3>, }
-#[derive(SystemData)] pub struct Z1657_3<'a> { f0: PhantomData<&'a u8>, f1: Write<'a, D0, DefaultProvider>, }
-#[derive(SystemData)] pub struct Z1657_1<'a>(Z1657_2<'a>, Z1657_3<'a>);
-#[derive(SystemData)] pub struct Z1657_5<'a>(pub Read<'a, D3, Hc<D0>>, pub Write<'a, D0>, pub PhantomData<u8>, pub Option<Read<'a, D3, PanicHandler>>);
-#[derive(SystemData)] pub struct Z1657_6<'a, T0: Debug + Resource + Default, T1: Debug + Resource> { pub f0: Write<'a, T0, DefaultProvider>, pub f1: Read<'a, T1, PanicHandler>, pub f2: Read<'a, D3, Hc<D0>>, pub f3: Read<'a, D0>, }
-#[derive(SystemData)] pub struct Z1657_4<'a, U0>(U0, Z1657_6<'a, D0, D3>) where U0: SystemData<'a>;
-#[derive(SystemData)] pub struct Z1657_0<'a, U0: SystemData<'a>> { f0: Z1657_1<'a>, f1: U0, f2: Z1657_4<'a, Z1657_5<'a>>, }
-shredh::zoo_case!(c1657, 1657, 'a, Z1657_0<'a, Option<Read<'a, D3>>>);
-#[derive(SystemData)] pub struct Z1665_0<'a, T0, T1, T2> where T0: Resource, T1: Resource + ZRes, T2: Resource { f0: Option<Read<'a, D2>>, f1: Read<'a, T0, PanicHandler>, f2: Option<Write<'a, T1>>, f3: ReadExpect<'a, T2>, }
-shredh::zoo_case!(c1665, 1665, 'a, (Read<'a, D1, Hc<D3>>, Z1665_0<'a, D3, D3, N0>, Option<Write<'a, D3>>, Option<Read<'a, D2>>, ));
-#[derive(SystemData)] pub struct Z1673_1<'a, 'x> { pub f0: WriteExpect<'a, N2>, pub f1: WriteExpect<'a, N0>, pub f2: PhantomData<&'x i64>, pub f3: Read<'a, D3>, }
-#[derive(SystemData)] pub struct Z1673_2<'a, U0: SystemData<'a>, U1: SystemData<'a>> { f0: U0, f1: ReadExpect<'a, D3>, f2: U1, }
-#[derive(SystemData)] pub struct Z1673_0<'a, U0, T0: Debug + Resource, U1: SystemData<'a>>(pub U0, pub ReadExpect<'a, T0>, pub U1) where U0: SystemData<'a>;
-shredh::zoo_case!(c1673, 1673, 'a, Z1673_0<'a, Z1673_1<'a, 'a>, D3, Z1673_2<'a, (), ()>>);
-#[derive(SystemData)] pub struct Z1681_1<'a>(PhantomData<&'a u8>);
-#[derive(SystemData)] pub struct Z1681_0<'a, T0: Resource>(pub (Read<'a, D2, Hc<D1>>, Write<'a, D2, PanicHandler>, ), pub Z1681_1<'a>, pub Option<Write<'a, T0, PanicHandler>>);
-#[derive(SystemData)] pub struct Z1681_3<'a>((), Write<'a, D3, Hc<D1>>, (), Read<'a, D3, Hc<D2>>);
-#[derive(SystemData)] pub struct Z1681_2<'a> { f0: Z1681_3<'a>, }
-shredh::zoo_case!(c1681, 1681, 'a, (Z1681_0<'a, D1>, ReadExpect<'a, D3>, Z1681_2<'a>, (), ));
-#[derive(SystemData)] pub struct Z1689_1<'a>(Write<'a, D2, DefaultProvider>, ReadExpect<'a, D0>);
-#[derive(SystemData)] pub struct Z1689_3<'a, T0: Resource + ZRes + Default>(Read<'a, D0, DefaultProvider>, Write<'a, T0>);
-#[derive(SystemData)] pub struct Z1689_2<'a> { pub f0: Z1689_3<'a, D2>, }
-#[derive(SystemData)] pub struct Z1689_0<'a, U0: SystemData<'a>, U1: SystemData<'a>, U2: SystemData<'a>>(U0, U1, U2, Z1689_2<'a>);
-shredh::zoo_case!(c1689, 1689, 'a, Z1689_0<'a, Read<'a, D3, DefaultProvider>, (Z1689_1<'a>, (PhantomData<D0>, PhantomData<D0>, Read<'a, D2, Hc<D0>>, Read<'a, D3, Hc<D2>>, ), PhantomData<&'a u8>, (Option<Write<'a, D2>>, ), ), Option<ReadExpect<'a, D3>>>);
-shredh::zoo_case!(c1697, 1697, 'a, ((Write<'a, D2, Hc<D0>>, Read<'a, D2, Hc<D1>>, ), Read<'a, D2>, ));
-#[derive(SystemData)] pub struct Z1705_0<'a> { f0: (Write<'a, D2, PanicHandler>, Option<Read<'a, D2>>, PhantomData<str>, Write<'a, D3, Hc<D2>>, ), f1: (), }
-#[derive(SystemData)] pub struct Z1705_2<'a> { f0: Read<'a, D2, DefaultProvider>, f1: Read<'a, D3, DefaultProvider>, }
-#[derive(SystemData)] pub struct Z1705_3<'a>(pub Write<'a, D3, PanicHandler>, pub PhantomData<u8>, pub (), pub Read<'a, D3, DefaultProvider>);
-#[derive(SystemData)] pub struct Z1705_1<'a> { f0: (Read<'a, D3, Hc<D0>>, Option<WriteExpect<'a, D2>>, ), f1: Z1705_2<'a>, f2: Option<Write<'a, D3, PanicHandler>>, f3: Z1705_3<'a>, }
-shredh::zoo_case!(c1705, 1705, 'a, (Write<'a, D2>, Z1705_0<'a>, Z1705_1<'a>, ));
-#[derive(SystemData)] pub struct Z1713_0<'a>(pub ((Write<'a, D1>, Read<'a, D3>, Option<Write<'a, D3>>, ), (Option<ReadExpect<'a, D3>>, Read<'a, D1, Hc<D3>>, ), (PhantomData<&'a u8>, ReadExpect<'a, D3>, ReadExpect<'a, D1>, ), ), pub Option<ReadExpect<'a, D1>>);
-shredh::zoo_case!(c1713, 1713, 'a, Z1713_0<'a>);
-#[derive(SystemData)] pub struct Z1721_0<'a> { pub f0: WriteExpect<'a, D1>, pub f1: Option<Write<'a, D1, PanicHandler>>, pub f2: ((), Read<'a, D1, Hc<D2>>, Read<'a, D2, PanicHandler>, Write<'a, D1, Hc<D0>>, ), }
-shredh::zoo_case!(c1721, 1721, 'a, Z1721_0<'a>);
-#[derive(SystemData)] pub struct Z1729_2<'a>(pub Option<Write<'a, D0, PanicHandler>>, pub Read<'a, D0, Hc<D2>>);
-#[derive(SystemData)] pub struct Z1729_1<'a, T0: Debug + Resource>(pub Read<'a, T0, Hc<D0>>, pub Z1729_2<'a>);
-#[derive(SystemData)] pub struct Z1729_0<'a>(Z1729_1<'a, D2>);
-shredh::zoo_case!(c1729, 1729, 'a, Z1729_0<'a>);
-#[derive(SystemData)] pub struct Z1737_0<'a> { f0: Read<'a, D3, Hc<D1>>, }
-#[derive(SystemData)] pub struct Z1737_1<'a, T0: Debug + Resource + for<'b> Hrtb<'b>> { pub f0: Option<ReadExpect<'a, T0>>, }
-#[derive(SystemData)] pub struct Z1737_3<'a>(PhantomData<str>, Read<'a, D3, PanicHandler>, ());
-#[derive(SystemData)] pub struct Z1737_2<'a> { pub f0: Z1737_3<'a>, pub f1: (ReadExpect<'a, D3>, Option<WriteExpect<'a, D3>>, Read<'a, D3, DefaultProvider>, Option<Read<'a, D1, PanicHandler>>, ), pub f2: (Read<'a, D1>, Option<Read<'a, D3>>, Write<'a, D3>, Option<ReadExpect<'a, D1>>, ), pub f3: (Option<Read<'a, D1>>, ), }
-#[derive(SystemData)] pub struct Z1737_5<'a> { pub f0: Option<Read<'a, D1>>, }
-#[derive(SystemData)] pub struct Z1737_6<'a>(pub Option<Read<'a, D1>>, pub Option<Read<'a, D3>>, pub Option<ReadExpect<'a, D1>>);
-#[derive(SystemData)] pub struct Z1737_4<'a>(PhantomData<str>, Z1737_5<'a>, Z1737_6<'a>, (Write<'a, D3>, ));
-shredh::zoo_case!(c1737, 1737, 'a, (Z1737_0<'a>, ((Read<'a, D3, PanicHandler>, ), Z1737_1<'a, D1>, ((), ), ), Z1737_2<'a>, Z1737_4<'a>, ));
-shredh::zoo_case!(c1745, 1745, 'a, ((), (Read<'a, D0, Hc<D3>>, ), ));
-#[derive(SystemData)] pub struct Z1753_1<'a, T0: Resource> { f0: WriteExpect<'a, T0>, }
-#[derive(SystemData)] pub struct Z1753_2<'a, T0, T1>(pub ReadExpect<'a, T0>, pub Read<'a, T1>) where T0: Resource + ZRes, T1: Resource;
-#[derive(SystemData)] pub struct Z1753_0<'a, U0, U1, U2>(U0, U1, Read<'a, D3>, U2) where U0: SystemData<'a>, U1: SystemData<'a>, U2: SystemData<'a>;
-shredh::zoo_case!(c1753, 1753, 'a, Z1753_0<'a, Z1753_1<'a, D1>, Write<'a, D3, PanicHandler>, Z1753_2<'a, N2, D1>>);
-#[derive(SystemData)] pub struct Z1761_2<'a, T0: Resource + ZRes, T1>(pub Option<Read<'a, T0, PanicHandler>>, pub Read<'a, T1, DefaultProvider>) where T1: Resource + ZRes;
-#[derive(SystemData)] pub struct Z1761_3<'a, T0: Resource, U0>(pub Option<WriteExpect<'a, T0>>, pub Write<'a, D2, Hc<D3>>, pub U0) where U0: SystemData<'a>;
-#[derive(SystemData)] pub struct Z1761_1<'a, U0>(pub Z1761_2<'a, D2, D2>, pub U0, pub ()) where U0: SystemData<'a>;
-#[derive(SystemData)] pub struct Z1761_4<'a, T0> where T0: Debug + Resource { f0: Write<'a, T0>, f1: (), }
-#[derive(SystemData)] pub struct Z1761_0<'a> { f0: Z1761_1<'a, Z1761_3<'a, D2, ()>>, f1: (Z1761_4<'a, D3>, Read<'a, D2, Hc<D3>>, ), }
-shredh::zoo_case!(c1761, 1761, 'a, Z1761_0<'a>);
-#[derive(SystemData)] pub struct Z1769_1<'a> { f0: (PhantomData<[u32]>, Read<'a, D2, Hc<D3>>, Read<'a, D0, PanicHandler>, (), ), }
-#[derive(SystemData)] pub struct Z1769_3<'a, 'x> { f0: Read<'a, D3, Hc<D0>>, f1: PhantomData<&'x i64>, f2: Read<'a, D0, Hc<D2>>, }
-#[derive(SystemData)] pub struct Z1769_2<'a, U0: SystemData<'a>> { pub f0: Z1769_3<'a, 'a>, pub f1: (Option<WriteExpect<'a, D0>>, ), pub f2: U0, }
-#[derive(SystemData)] pub struct Z1769_0<'a> { pub f0: Z1769_1<'a>, pub f1: Option<Read<'a, D0>>, pub f2: Z1769_2<'a, (Read<'a, D2>, )>, }
-shredh::zoo_case!(c1769, 1769, 'a, Z1769_0<'a>);
-#[derive(SystemData)] pub struct Z1777_1<'a>(ReadExpect<'a, N1>, ReadExpect<'a, N1>, PhantomData<fn() -> N2>);
-#[derive(SystemData)] pub struct Z1777_2<'a> { f0: PhantomData<&'a u8>, }
-#[derive(SystemData)] pub struct Z1777_3<'a, 'x> { pub f0: Option<Read<'a, D3, PanicHandler>>, pub f1: PhantomData<&'x i64>, pub f2: Read<'a, N0, PanicHandler>, }
-#[derive(SystemData)] pub struct Z1777_0<'a> { pub f0: (PhantomData<D0>, Read<'a, D3>, ), pub f1: Z1777_1<'a>, pub f2: Z1777_2<'a>, pub f3: Z1777_3<'a, 'static>, }
-#[derive(SystemData)] pub struct Z1777_5<'a, U0: SystemData<'a>, U1: SystemData<'a>> { f0: PhantomData<u8>, f1: U0, f2: U1, f3: Option<Write<'a, D3>>, }
-#[derive(SystemData)] pub struct Z1777_4<'a, U0>(U0, Z1777_5<'a, Option<WriteExpect<'a, D3>>, Read<'a, N1, PanicHandler>>, (PhantomData<fn() -> N2>, Option<WriteExpect<'a, N1>>, )) where U0: SystemData<'a>;
-shredh::zoo_case!(c1777, 1777, 'a, (((Option<Read<'a, D3, PanicHandler>>, ), ), Z1777_0<'a>, Z1777_4<'a, (Option<Read<'a, N1, PanicHandler>>, )>, Option<ReadExpect<'a, N1>>, ));
-#[derive(SystemData)] pub struct Z1785_0<'a> { pub f0: Option<Read<'a, D0>>, pub f1: Option<ReadExpect<'a, D0>>, pub f2: Write<'a, D1>, }
-#[derive(SystemData)] pub struct Z1785_1<'a> { f0: ReadExpect<'a, D0>, f1: Write<'a, D0, Hc<D1>>, f2: PhantomData<[u32]>, }
-shredh::zoo_case!(c1785, 1785, 'a, (Option<Write<'a, D0, PanicHandler>>, ((), Read<'a, D1, PanicHandler>, ), Z1785_0<'a>, Z1785_1<'a>, ));
-#[derive(SystemData)] pub struct Z1793_1<'a, U0, T0: Resource, T1: Debug + Resource, U1: SystemData<'a>>(pub U0, pub Option<WriteExpect<'a, T0>>, pub Write<'a, T1, DefaultProvider>, pub U1) where U0: SystemData<'a>;
-#[derive(SystemData)] pub struct Z1793_0<'a>((Write<'a, D0, Hc<D1>>, ), (Z1793_1<'a, (), D1, D3, Read<'a, D0, Hc<D3>>>, ), Option<ReadExpect<'a, D0>>);
-shredh::zoo_case!(c1793, 1793, 'a, Z1793_0<'a>);
-#[derive(SystemData)] pub struct Z1801_0<'a>(ReadExpect<'a, D3>, ReadExpect<'a, N2>, Write<'a, N4, PanicHandler>);
-shredh::zoo_case!(c1801, 1801, 'a, (WriteExpect<'a, N4>, WriteExpect<'a, N2>, Z1801_0<'a>, ));
-#[derive(SystemData)] pub struct Z1809_0<'a> { f0: Option<WriteExpect<'a, D2>>, }
-shredh::zoo_case!(c1809, 1809, 'a, (Z1809_0<'a>, WriteExpect<'a, D0>, ));
-shredh::zoo_case!(c1817, 1817, 'a, ((Write<'a, D1, Hc<D0>>, PhantomData<str>, Option<Read<'a, D0>>, (), ), ((), PhantomData<&'a u8>, ), PhantomData<fn() -> N2>, ReadExpect<'a, D1>, ));
-#[derive(SystemData)] pub struct Z1825_0<'a> { pub f0: Read<'a, D2, Hc<D1>>, pub f1: PhantomData<dyn Send>, }
-shredh::zoo_case!(c1825, 1825, 'a, (Z1825_0<'a>, ));
-#[derive(SystemData)] pub struct Z1833_1<'a, U0: SystemData<'a>, U1: SystemData<'a>>(U0, U1, Read<'a, D1>);
-#[derive(SystemData)] pub struct Z1833_0<'a, T0, T1>(pub Read<'a, T0, DefaultProvider>, pub Option<Read<'a, T1, PanicHandler>>, pub ((), Z1833_1<'a, Read<'a, D3>, Read<'a, D2>>, ), pub ((Option<Read<'a, D1, PanicHandler>>, ), )) where T0: Resource + ZRes + Default, T1: Debug + Resource + for<'b> Hrtb<'b>;
-shredh::zoo_case!(c1833, 1833, 'a, Z1833_0<'a, D2, D3>);
-#[derive(SystemData)] pub struct Z1841_1<'a, U0: SystemData<'a>, U1: SystemData<'a>> { pub f0: U0, pub f1: U1, pub f2: Write<'a, D1, Hc<D0>>, }
-#[derive(SystemData)] pub struct Z1841_2<'a> { pub f0: (PhantomData<[u32]>, Option<Write<'a, D1, PanicHandler>>, Option<WriteExpect<'a, D0>>, ), }
-#[derive(SystemData)] pub struct Z1841_0<'a> { f0: Write<'a, D1, DefaultProvider>, f1: ((Read<'a, D1, Hc<D0>>, ), Z1841_1<'a, Option<Write<'a, D0>>, Write<'a, D0, DefaultProvider>>, ), f2: ((WriteExpect<'a, D1>, Read<'a, D0, Hc<D1>>, (), ), ), f3: Z1841_2<'a>, }
-shredh::zoo_case!(c1841, 1841, 'a, Z1841_0<'a>);
-#[derive(SystemData)] pub struct Z1849_0<'a> { pub f0: (PhantomData<(Write<'a, D1>,)>, ), }
-shredh::zoo_case!(c1849, 1849, 'a, Z1849_0<'a>);
-#[derive(SystemData)] pub struct Z1857_1<'a>(Read<'a, D2, Hc<D3>>, Read<'a, D2, DefaultProvider>, Read<'a, D3, DefaultProvider>, PhantomData<&'a u8>);
-#[derive(SystemData)] pub struct Z1857_0<'a> { f0: Read<'a, D4, PanicHandler>, f1: ReadExpect<'a, D0>, f2: Read<'a, D0>, f3: Z1857_1<'a>, }
-shredh::zoo_case!(c1857, 1857, 'a, Z1857_0<'a>);
-#[derive(SystemData)] pub struct Z1865_0<'a> { f0: PhantomData<&'a u8>, f1: Read<'a, D1, Hc<D4>>, }
-#[derive(SystemData)] pub struct Z1865_1<'a, T0: Debug + Resource> { pub f0: Option<ReadExpect<'a, T0>>, pub f1: Read<'a, D0, DefaultProvider>, }
-#[derive(SystemData)] pub struct Z1865_2<'a, T0: Resource>(pub Option<Read<'a, T0>>, pub PhantomData<dyn Send>);
-shredh::zoo_case!(c1865, 1865, 'a, (PhantomData<dyn Send>, Z1865_0<'a>, Z1865_1<'a, D0>, Z1865_2<'a, D1>, ));
-#[derive(SystemData)] pub struct Z1873_0<'a, 'x>(PhantomData<&'x i64>, Read<'a, D15>, Read<'a, D17, Hc<D10>>, Read<'a, D24, Hc<D3>>, PhantomData<str>, Write<'a, D3, DefaultProvider>, Option<Write<'a, N23>>, Write<'a, D5, Hc<D24>>, Option<Write<'a, D1, PanicHandler>>, Option<Write<'a, N12, PanicHandler>>, Read<'a, D4, Hc<D24>>);
-shredh::zoo_case!(c1873, 1873, 'a, Z1873_0<'a, 'static>);
-shredh::zoo_case!(c1881, 1881, 'a, (Write<'a, D0, Hc<D13>>, Write<'a, D18>, Write<'a, D5, Hc<D22>>, Write<'a, N16, PanicHandler>, Write<'a, D3>, Write<'a, D19, Hc<D13>>, Write<'a, D7, Hc<D13>>, WriteExpect<'a, D10>, Option<ReadExpect<'a, D25>>, Read<'a, D22, PanicHandler>, WriteExpect<'a, N21>, Read<'a, D13, DefaultProvider>, (), Option<Read<'a, N14>>, Read<'a, D12>, Write<'a, D6>, Read<'a, D11, Hc<D7>>, Write<'a, D24>, Read<'a, N4, PanicHandler>, ));
-#[derive(SystemData)] pub struct Z1889_1<'a, U0: SystemData<'a>> { pub f0: Read<'a, D1, PanicHandler>, pub f1: U0, }
-#[derive(SystemData)] pub struct Z1889_0<'a> { f0: Z1889_1<'a, WriteExpect<'a, D7>>, f1: Write<'a, D4, DefaultProvider>, f2: Option<ReadExpect<'a, D6>>, f3: ReadExpect<'a, D3>, f4: Option<ReadExpect<'a, D4>>, f5: Read<'a, D6, Hc<D7>>, f6: Write<'a, D0, DefaultProvider>, f7: PhantomData<str>, f8: WriteExpect<'a, D4>, f9: Write<'a, D6, PanicHandler>, f10: ReadExpect<'a, D0>, f11: (), f12: Read<'a, D6, PanicHandler>, f13: (Write<'a, D3, Hc<D1>>, Write<'a, D3, Hc<D5>>, Read<'a, D4, Hc<D5>>, ), f14: (PhantomData<str>, ), f15: (Read<'a, D0>, (), Read<'a, D0, Hc<D1>>, ), }
-shredh::zoo_case!(c1889, 1889, 'a, Z1889_0<'a>);
-#[derive(SystemData)] pub struct Z1897_0<'a, U0: SystemData<'a>, U1: SystemData<'a>, U2: SystemData<'a>> { f0: U0, f1: U1, f2: U2, f3: PhantomData<u8>, f4: PhantomData<str>, f5: ReadExpect<'a, D4>, f6: Read<'a, D0>, f7: Read<'a, D4>, f8: ReadExpect<'a, D0>, f9: (), f10: Read<'a, D0, PanicHandler>, f11: (), f12: (), f13: PhantomData<dyn Send>, f14: (), f15: (), f16: ReadExpect<'a, D4>, f17: PhantomData<dyn Send>, }
-shredh::zoo_case!(c1897, 1897, 'a, Z1897_0<'a, Option<Read<'a, D4>>, Read<'a, N3, PanicHandler>, ()>);
-#[derive(SystemData)] pub struct Z1905_0<'a> { pub f0: Read<'a, D2>, pub f1: Read<'a, N3, PanicHandler>, pub f2: PhantomData<D0>, pub f3: Option<ReadExpect<'a, D2>>, pub f4: Read<'a, N3, PanicHandler>, pub f5: PhantomData<(Write<'a, D1>,)>, pub f6: Read<'a, D0>, pub f7: Read<'a, D0, DefaultProvider>, pub f8: (), pub f9: Read<'a, D0, PanicHandler>, pub f10: PhantomData<str>, pub f11: Read<'a, N3, PanicHandler>, pub f12: Read<'a, D0>, pub f13: Read<'a, D0>, pub f14: Read<'a, D2, PanicHandler>, pub f15: ReadExpect<'a, N3>, pub f16: (), pub f17: ReadExpect<'a, D0>, pub f18: PhantomData<(Write<'a, D1>,)>, }
-shredh::zoo_case!(c1905, 1905, 'a, Z1905_0<'a>);
-shredh::zoo_case!(c1913, 1913, 'a, (ReadExpect<'a, N5>, PhantomData<&'a u8>, ReadExpect<'a, N5>, Option<Read<'a, D2>>, PhantomData<fn() -> N2>, ReadExpect<'a, D2>, PhantomData<D0>, Read<'a, N0, PanicHandler>, Option<Read<'a, D1, PanicHandler>>, Read<'a, D4>, Option<ReadExpect<'a, N0>>, ReadExpect<'a, D4>, Read<'a, D1, DefaultProvider>, Read<'a, N0, PanicHandler>, Option<Read<'a, D1, PanicHandler>>, Option<Read<'a, N5, PanicHandler>>, Read<'a, D4, DefaultProvider>, Read<'a, D4, PanicHandler>, Read<'a, D1, DefaultProvider>, ReadExpect<'a, D2>, (), Read<'a, D1, DefaultProvider>, PhantomData<str>, Option<Read<'a, N0, PanicHandler>>, PhantomData<dyn Send>, ));
-shredh::zoo_case!(c1921, 1921, 'a, (Write<'a, D21>, Write<'a, D1, Hc<D16>>, Option<WriteExpect<'a, N24>>, Option<Write<'a, N13>>, ReadExpect<'a, N4>, PhantomData<str>, Write<'a, D14>, Option<Read<'a, N3>>, PhantomData<fn() -> N2>, (), Read<'a, N0, PanicHandler>, Read<'a, D5, Hc<D21>>, Write<'a, D10, DefaultProvider>, PhantomData<u8>, Write<'a, D19, Hc<D18>>, Option<Write<'a, N9>>, Read<'a, N6, PanicHandler>, (), (), ReadExpect<'a, N22>, Write<'a, D16>, Option<Read<'a, N11, PanicHandler>>, ));
-#[derive(SystemData)] pub struct Z1929_1<'a> { f0: PhantomData<(Write<'a, D1>,)>, f1: WriteExpect<'a, D2>, }
-#[derive(SystemData)] pub struct Z1929_2<'a, T0: Resource, T1: Debug + Resource + for<'b> Hrtb<'b>, T2: Resource>(Option<ReadExpect<'a, T0>>, Read<'a, T1>, Read<'a, T2, Hc<D1>>);
-#[derive(SystemData)] pub struct Z1929_3<'a> { pub f0: Option<Write<'a, D1, PanicHandler>>, pub f1: Read<'a, D1>, pub f2: Option<Write<'a, D3>>, }
-#[derive(SystemData)] pub struct Z1929_4<'a>(pub Read<'a, D2, DefaultProvider>, pub Option<Read<'a, D0, PanicHandler>>);
-#[derive(SystemData)] pub struct Z1929_0<'a, U0, U1, U2>((Read<'a, D3, Hc<D2>>, Write<'a, D5, Hc<D0>>, ), (), (Write<'a, D0>, Write<'a, D0>, Option<Write<'a, D1>>, ), Write<'a, D3>, U0, Option<Read<'a, D3, PanicHandler>>, U1, Option<Read<'a, D5, PanicHandler>>, U2, Read<'a, D1>, Write<'a, D1>, Z1929_2<'a, D3, D3, D3>, Read<'a, D4, PanicHandler>, WriteExpect<'a, D0>, Write<'a, D3, DefaultProvider>, PhantomData<[u32]>, Z1929_3<'a>, Write<'a, D5>, PhantomData<u8>, ReadExpect<'a, D2>, Z1929_4<'a>) where U0: SystemData<'a>, U1: SystemData<'a>, U2: SystemData<'a>;
-shredh::zoo_case!(c1929, 1929, 'a, Z1929_0<'a, Read<'a, D4, Hc<D0>>, Z1929_1<'a>, ()>);
-#[derive(SystemData)] pub struct Z1937_0<'a, T0: Debug + Resource + for<'b> Hrtb<'b>, T1: Debug + Resource, T2: Debug + Resource + for<'b> Hrtb<'b>>(Write<'a, T0, Hc<D0>>, Read<'a, T1, PanicHandler>, ((), Read<'a, D4, PanicHandler>, Option<Write<'a, D0>>, ), Write<'a, D0, DefaultProvider>, ((), Read<'a, D5, Hc<D3>>, Write<'a, D1, DefaultProvider>, ), Option<Read<'a, T2, PanicHandler>>, Option<ReadExpect<'a, D0>>, Read<'a, D4, PanicHandler>, Write<'a, D5, DefaultProvider>, Read<'a, D4>, (Option<ReadExpect<'a, D0>>, ), (Option<Write<'a, D0>>, ), Write<'a, D0>);
-shredh::zoo_case!(c1937, 1937, 'a, Z1937_0<'a, D5, D1, D3>);
-#[derive(SystemData)] pub struct Z1945_0<'a, 'x> { f0: WriteExpect<'a, D11>, f1: Option<ReadExpect<'a, N12>>, f2: Read<'a, D3, PanicHandler>, f3: PhantomData<&'x i64>, f4: (), f5: PhantomData<dyn Send>, f6: Write<'a, D13>, f7: Option<ReadExpect<'a, N9>>, f8: PhantomData<u8>, f9: WriteExpect<'a, D21>, f10: Read<'a, D15>, f11: (), f12: Write<'a, D5>, f13: Read<'a, D18, PanicHandler>, f14: Write<'a, D19, DefaultProvider>, f15: Option<WriteExpect<'a, N20>>, f16: Option<Write<'a, D14>>, f17: Read<'a, D25, DefaultProvider>, f18: Option<Write<'a, N2, PanicHandler>>, f19: ReadExpect<'a, D8>, f20: Read<'a, D7>, f21: Option<Write<'a, D23>>, f22: Write<'a, D16, Hc<D23>>, }
-shredh::zoo_case!(c1945, 1945, 'a, Z1945_0<'a, 'a>);
-#[derive(SystemData)] pub struct Z1953_1<'a, T0: Resource + ZRes, T1: Debug + Resource + for<'b> Hrtb<'b> + Default>(Option<ReadExpect<'a, T0>>, Write<'a, T1, DefaultProvider>);
-#[derive(SystemData)] pub struct Z1953_0<'a>(WriteExpect<'a, D1>, Read<'a, D3, PanicHandler>, Z1953_1<'a, D1, D2>, ());
-shredh::zoo_case!(c1953, 1953, 'a, Z1953_0<'a>);
-#[derive(SystemData)] pub struct Z1961_0<'a>(pub Write<'a, D3>, pub Option<Write<'a, D5, PanicHandler>>, pub Read<'a, D1, DefaultProvider>, pub (), pub PhantomData<[u32]>, pub Option<Read<'a, D6, PanicHandler>>, pub (), pub Write<'a, D16, Hc<D3>>, pub Write<'a, D11, Hc<D24>>, pub ReadExpect<'a, N7>, pub Option<Read<'a, D22>>);
-shredh::zoo_case!(c1961, 1961, 'a, Z1961_0<'a>);
-shredh::zoo_case!(c1969, 1969, 'a, (Option<Read<'a, D3>>, PhantomData<dyn Send>, Option<Read<'a, N1>>, Write<'a, D5, DefaultProvider>, Option<WriteExpect<'a, D2>>, ));
-#[derive(SystemData)] pub struct Z1977_0<'a, U0: SystemData<'a>, U1: SystemData<'a>, U2: SystemData<'a>> { f0: U0, f1: U1, f2: U2, f3: Read<'a, D1>, f4: Write<'a, D3>, f5: ReadExpect<'a, D4>, f6: Read<'a, D0, Hc<D3>>, f7: PhantomData<fn() -> N2>, f8: Write<'a, D1>, f9: Write<'a, D1, Hc<D5>>, f10: Read<'a, D0>, f11: Write<'a, D4, Hc<D5>>, f12: ReadExpect<'a, D5>, f13: (), f14: (), f15: Read<'a, D3, Hc<D4>>, f16: Option<Read<'a, D0>>, f17: (), f18: Write<'a, D0>, f19: ReadExpect<'a, D0>, f20: Option<Read<'a, D1, PanicHandler>>, f21: Option<WriteExpect<'a, D0>>, }
-shredh::zoo_case!(c1977, 1977, 'a, Z1977_0<'a, Option<Read<'a, D3>>, Read<'a, D3, Hc<D1>>, Write<'a, D1, Hc<D4>>>);
-shredh::zoo_case!(c1985, 1985, 'a, (Option<ReadExpect<'a, D0>>, ReadExpect<'a, D2>, ReadExpect<'a, D0>, PhantomData<str>, (), (), PhantomData<u8>, Option<Read<'a, D2, PanicHandler>>, Read<'a, D3>, ReadExpect<'a, D0>, PhantomData<&'a u8>, ReadExpect<'a, D3>, Option<Read<'a, D0>>, Read<'a, D3, PanicHandler>, Option<Read<'a, D2, PanicHandler>>, Read<'a, D2, DefaultProvider>, (), (), Read<'a, D2, PanicHandler>, Read<'a, D0, DefaultProvider>, Read<'a, D0, DefaultProvider>, PhantomData<u8>, ReadExpect<'a, D3>, (), ));
-#[derive(SystemData)] pub struct Z1993_0<'a, 'x, T0, T1, T2: Debug + Resource> where T0: Resource, T1: Debug + Resource + for<'b> Hrtb<'b> { pub f0: Option<Read<'a, T0, PanicHandler>>, pub f1: Read<'a, T1, PanicHandler>, pub f2: ReadExpect<'a, N3>, pub f3: (), pub f4: Read<'a, T2, PanicHandler>, pub f5: Read<'a, D0>, pub f6: ReadExpect<'a, N4>, pub f7: Read<'a, D1, DefaultProvider>, pub f8: Read<'a, D1, DefaultProvider>, pub f9: (), pub f10: Option<Read<'a, N4, PanicHandler>>, pub f11: Option<ReadExpect<'a, D0>>, pub f12: (), pub f13: PhantomData<&'x i64>, pub f14: Read<'a, D1, PanicHandler>, pub f15: Read<'a, D1>, pub f16: (), pub f17: PhantomData<[u32]>, pub f18: Read<'a, D1, DefaultProvider>, pub f19: Read<'a, D0, DefaultProvider>, pub f20: (), pub f21: PhantomData<dyn Send>, pub f22: Read<'a, D0, PanicHandler>, }
-shredh::zoo_case!(c1993, 1993, 'a, Z1993_0<'a, 'static, N3, N4, N3>);
-shredh::zoo_case!(c2001, 2001, 'a, (Write<'a, N1, PanicHandler>, Option<Read<'a, N23, PanicHandler>>, WriteExpect<'a, D9>, PhantomData<&'a u8>, Write<'a, D4, DefaultProvider>, Read<'a, D19, Hc<D11>>, PhantomData<D0>, Write<'a, D17, Hc<D7>>, Option<Write<'a, N24>>, Write<'a, D16, Hc<D11>>, ReadExpect<'a, D25>, Write<'a, D22>, Read<'a, D18, DefaultProvider>, Read<'a, D11, PanicHandler>, (), (), ReadExpect<'a, D7>, WriteExpect<'a, N20>, (), ));
-#[derive(SystemData)] pub struct Z2009_0<'a, 'x, T0, T1, T2>(Write<'a, D14, DefaultProvider>, PhantomData<&'x i64>, Option<Read<'a, N6>>, Read<'a, T0, Hc<D9>>, Option<Read<'a, N10, PanicHandler>>, Read<'a, T1>, Read<'a, T2, Hc<D22>>, Read<'a, D3, Hc<D8>>, Read<'a, D19, PanicHandler>, Read<'a, D13>, Option<Write<'a, D9>>, Option<Read<'a, D8>>, Write<'a, D4, Hc<D14>>, Write<'a, D11, Hc<D19>>, Write<'a, D1, DefaultProvider>) where T0: Debug + Resource, T1: Resource, T2: Debug + Resource;
-shredh::zoo_case!(c2009, 2009, 'a, Z2009_0<'a, 'static, D15, D7, D5>);
-#[derive(SystemData)] pub struct Z2017_0<'a> { pub f0: Option<Write<'a, N8, PanicHandler>>, pub f1: Read<'a, N11, PanicHandler>, pub f2: (), pub f3: Read<'a, N23, PanicHandler>, pub f4: (), pub f5: PhantomData<(Write<'a, D1>,)>, pub f6: PhantomData<fn() -> N2>, pub f7: WriteExpect<'a, N14>, pub f8: Read<'a, D21>, pub f9: WriteExpect<'a, N5>, pub f10: Write<'a, D2>, pub f11: PhantomData<str>, pub f12: Read<'a, D15>, pub f13: Write<'a, D17>, pub f14: Read<'a, D19, Hc<D17>>, pub f15: Read<'a, D13>, pub f16: ReadExpect<'a, N25>, }
-shredh::zoo_case!(c2017, 2017, 'a, Z2017_0<'a>);
-#[derive(SystemData)] pub struct Z2025_1<'a> { pub f0: (), pub f1: Read<'a, N2, PanicHandler>, }
-#[derive(SystemData)] pub struct Z2025_2<'a> { f0: Option<Write<'a, D3, PanicHandler>>, }
-#[derive(SystemData)] pub struct Z2025_3<'a> { pub f0: Read<'a, D0, DefaultProvider>, }
-#[derive(SystemData)] pub struct Z2025_0<'a, T0: Debug + Resource + for<'b> Hrtb<'b> + Default, T1: Debug + Resource + for<'b> Hrtb<'b>, T2: Debug + Resource + Default> { pub f0: Write<'a, T0>, pub f1: ReadExpect<'a, T1>, pub f2: Z2025_1<'a>, pub f3: Read<'a, T2, DefaultProvider>, pub f4: Z2025_2<'a>, pub f5: WriteExpect<'a, D3>, pub f6: (Read<'a, D3, DefaultProvider>, ), pub f7: Option<Read<'a, D0>>, pub f8: Z2025_3<'a>, }
-shredh::zoo_case!(c2025, 2025, 'a, Z2025_0<'a, D0, N2, D3>);
-#[derive(SystemData)] pub struct Z2033_1<'a>(PhantomData<&'a u8>);
-#[derive(SystemData)] pub struct Z2033_2<'a>(pub Write<'a, D3, Hc<D2>>);
-#[derive(SystemData)] pub struct Z2033_3<'a, U0: SystemData<'a>, U1, T0: Resource>(pub U0, pub U1, pub Write<'a, T0, Hc<D2>>) where U1: SystemData<'a>;
-#[derive(SystemData)] pub struct Z2033_4<'a> { f0: PhantomData<&'a u8>, }
-#[derive(SystemData)] pub struct Z2033_5<'a>(Write<'a, D3, PanicHandler>);
-#[derive(SystemData)] pub struct Z2033_0<'a, U0: SystemData<'a>, U1: SystemData<'a>, U2: SystemData<'a>>(pub Write<'a, D3, Hc<D1>>, pub U0, pub Z2033_2<'a>, pub Read<'a, D3>, pub U1, pub U2, pub PhantomData<str>, pub ReadExpect<'a, D3>, pub WriteExpect<'a, D3>, pub ((), ), pub Z2033_3<'a, Option<WriteExpect<'a, D2>>, PhantomData<&'a u8>, D3>, pub PhantomData<[u32]>, pub Z2033_4<'a>, pub Option<Write<'a, D2, PanicHandler>>, pub Z2033_5<'a>, pub Read<'a, D2, Hc<D1>>, pub Option<Write<'a, D2>>, pub (Read<'a, D3, PanicHandler>, ), pub Write<'a, D1, Hc<D2>>, pub PhantomData<D0>, pub Read<'a, D1, DefaultProvider>, pub Read<'a, D1, Hc<D3>>, pub ReadExpect<'a, D2>, pub ());
-shredh::zoo_case!(c2033, 2033, 'a, Z2033_0<'a, Z2033_1<'a>, Write<'a, D1, Hc<D2>>, Read<'a, D1, Hc<D2>>>);
-#[derive(SystemData)] pub struct Z2041_0<'a>(pub Option<Write<'a, N2, PanicHandler>>, pub (), pub ReadExpect<'a, N4>, pub WriteExpect<'a, N3>, pub Option<Read<'a, D5>>);
-shredh::zoo_case!(c2041, 2041, 'a, Z2041_0<'a>);
-#[derive(SystemData)] pub struct Z2049_0<'a, 'x, T0: Debug + Resource, T1: Debug + Resource, T2> where T2: Resource + ZRes { f0: Option<Read<'a, T0, PanicHandler>>, f1: PhantomData<&'x i64>, f2: (), f3: Read<'a, D0>, f4: Read<'a, T1, PanicHandler>, f5: ReadExpect<'a, T2>, f6: PhantomData<u8>, }
-shredh::zoo_case!(c2049, 2049, 'a, Z2049_0<'a, 'static, D0, N4, N3>);
-#[derive(SystemData)] pub struct Z2057_1<'a, T0>(ReadExpect<'a, T0>) where T0: Resource + ZRes;
-#[derive(SystemData)] pub struct Z2057_2<'a, T0: Debug + Resource, T1: Resource + ZRes> { pub f0: Option<WriteExpect<'a, T0>>, pub f1: Write<'a, T1>, }
-#[derive(SystemData)] pub struct Z2057_3<'a, U0, T0: Resource, U1: SystemData<'a>>(U0, Read<'a, T0>, U1) where U0: SystemData<'a>;
-#[derive(SystemData)] pub struct Z2057_0<'a, T0, T1, T2>(Z2057_1<'a, D0>, Z2057_2<'a, D2, D2>, Z2057_3<'a, PhantomData<str>, D5, Write<'a, D2>>, Write<'a, T0, Hc<D1>>, WriteExpect<'a, T1>, Write<'a, T2, PanicHandler>, WriteExpect<'a, D5>, Write<'a, D4, Hc<D2>>, Write<'a, D2, PanicHandler>, Write<'a, D4, Hc<D1>>, Read<'a, D0>, Option<Read<'a, D0>>, Read<'a, D0, DefaultProvider>, (), (Write<'a, D2>, PhantomData<str>, Write<'a, D5>, ), Write<'a, D2, DefaultProvider>) where T0: Resource, T1: Debug + Resource, T2: Debug + Resource;
-shredh::zoo_case!(c2057, 2057, 'a, Z2057_0<'a, D0, N3, D2>);
-#[derive(SystemData)] pub struct Z2065_0<'a>(((), ), Write<'a, D3, DefaultProvider>, (), WriteExpect<'a, D3>, Option<WriteExpect<'a, N2>>, ());
-shredh::zoo_case!(c2065, 2065, 'a, Z2065_0<'a>);
-#[derive(SystemData)] pub struct Z2073_0<'a, U0, U1, U2> where U0: SystemData<'a>, U1: SystemData<'a>, U2: SystemData<'a> { f0: Option<Read<'a, D6>>, f1: U0, f2: U1, f3: U2, f4: PhantomData<[u32]>, f5: (), f6: Read<'a, D9, Hc<D5>>, f7: (), f8: Read<'a, D18, PanicHandler>, f9: WriteExpect<'a, N15>, f10: Write<'a, D5, Hc<D9>>, f11: Read<'a, D1>, }
-shredh::zoo_case!(c2073, 2073, 'a, Z2073_0<'a, WriteExpect<'a, D13>, Option<Read<'a, N20>>, Write<'a, D25, Hc<D1>>>);
-#[derive(SystemData)] pub struct Z2081_0<'a, U0: SystemData<'a>, T0: Debug + Resource + for<'b> Hrtb<'b>, T1: Resource + ZRes, U1, U2: SystemData<'a>, T2: Resource + ZRes> where U1: SystemData<'a> { pub f0: U0, pub f1: Option<Write<'a, T0>>, pub f2: Read<'a, T1, PanicHandler>, pub f3: U1, pub f4: U2, pub f5: Option<Read<'a, N17, PanicHandler>>, pub f6: Write<'a, T2, Hc<D0>>, pub f7: Read<'a, D25, DefaultProvider>, }
-shredh::zoo_case!(c2081, 2081, 'a, Z2081_0<'a, Write<'a, D1, Hc<D25>>, N9, N24, Write<'a, D5, Hc<D6>>, PhantomData<(Write<'a, D1>,)>, D6>);
-#[derive(SystemData)] pub struct Z2089_0<'a, T0: Resource, T1: Resource + ZRes, T2: Debug + Resource + for<'b> Hrtb<'b>> { pub f0: ReadExpect<'a, N3>, pub f1: (), pub f2: (), pub f3: Read<'a, T0, PanicHandler>, pub f4: ReadExpect<'a, T1>, pub f5: PhantomData<fn() -> N2>, pub f6: PhantomData<u8>, pub f7: Read<'a, T2, DefaultProvider>, pub f8: Read<'a, D4, DefaultProvider>, }
-shredh::zoo_case!(c2089, 2089, 'a, Z2089_0<'a, D2, N3, D2>);
-pub static CASES: &[&shredh::zoo::Ops] = &[
-    &c1::OPS,
-    &c9::OPS,
-    &c17::OPS,
-    &c25::OPS,
-    &c33::OPS,
-    &c41::OPS,
-    &c49::OPS,
-    &c57::OPS,
-    &c65::OPS,
-    &c73::OPS,
-    &c81::OPS,
-    &c89::OPS,
-    &c97::OPS,
-    &c105::OPS,
-    &c113::OPS,
-    &c121::OPS,
-    &c129::OPS,
-    &c137::OPS,
-    &c145::OPS,
-    &c153::OPS,
-    &c161::OPS,
-    &c169::OPS,
-    &c177::OPS,
-    &c185::OPS,
-    &c193::OPS,
-    &c201::OPS,
-    &c209::OPS,
-    &c217::OPS,
-    &c225::OPS,
-    &c233::OPS,
-    &c241::OPS,
-    &c249::OPS,
-    &c257::OPS,
-    &c265::OPS,
-    &c273::OPS,
-    &c281::OPS,
-    &c289::OPS,
-    &c297::OPS,
-    &c305::OPS,
-    &c313::OPS,
-    &c321::OPS,
-    &c329::OPS,
-    &c337::OPS,
-    &c345::OPS,
-    &c353::OPS,
-    &c361::OPS,
-    &c369::OPS,
-    &c377::OPS,
-    &c385::OPS,
-    &c393::OPS,
-    &c401::OPS,
-    &c409::OPS,
-    &c417::OPS,
-    &c425::OPS,
-    &c433::OPS,
-    &c441::OPS,
-    &c449::OPS,
-    &c457::OPS,
-    &c465::OPS,
-    &c473::OPS,
-    &c481::OPS,
-    &c489::OPS,
-    &c497::OPS,
-    &c505::OPS,
-    &c513::OPS,
-    &c521::OPS,
-    &c529::OPS,
-    &c537::OPS,
-    &c545::OPS,
-    &c553::OPS,
-    &c561::OPS,
-    &c569::OPS,
-    &c577::OPS,
-    &c585::OPS,
-    &c593::OPS,
-    &c601::OPS,
-    &c609::OPS,
-    &c617::OPS,
-    &c625::OPS,
-    &c633::OPS,
-    &c641::OPS,
-    &c649::OPS,
-    &c657::OPS,
-    &c665::OPS,
-    &c673::OPS,
-    &c681::OPS,
-    &c689::OPS,
-    &c697::OPS,
-    &c705::OPS,
-    &c713::OPS,
-    &c721::OPS,
-    &c729::OPS,
-    &c737::OPS,
-    &c745::OPS,
-    &c753::OPS,
-    &c761::OPS,
-    &c769::OPS,
-    &c777::OPS,
-    &c785::OPS,
-    &c793::OPS,
-    &c801::OPS,
-    &c809::OPS,
-    &c817::OPS,
-    &c825::OPS,
-    &c833::OPS,
-    &c841::OPS,
-    &c849::OPS,
-    &c857::OPS,
-    &c865::OPS,
-    &c873::OPS,
-    &c881::OPS,
-    &c889::OPS,
-    &c897::OPS,
-    &c905::OPS,
-    &c913::OPS,
-    &c921::OPS,
-    &c929::OPS,
-    &c937::OPS,
-    &c945::OPS,
-    &c953::OPS,
-    &c961::OPS,
-    &c969::OPS,
-    &c977::OPS,
-    &c985::OPS,
-    &c993::OPS,
-    &c1001::OPS,
-    &c1009::OPS,
-    &c1017::OPS,
-    &c1025::OPS,
-    &c1033::OPS,
-    &c1041::OPS,
-    &c1049::OPS,
-    &c1057::OPS,
-    &c1065::OPS,
-    &c1073::OPS,
-    &c1081::OPS,
-    &c1089::OPS,
-    &c1097::OPS,
-    &c1105::OPS,
-    &c1113::OPS,
-    &c1121::OPS,
-    &c1129::OPS,
-    &c1137::OPS,
-    &c1145::OPS,
-    &c1153::OPS,
-    &c1161::OPS,
-    &c1169::OPS,
-    &c1177::OPS,
-    &c1185::OPS,
-    &c1193::OPS,
-    &c1201::OPS,
-    &c1209::OPS,
-    &c1217::OPS,
-    &c1225::OPS,
-    &c1233::OPS,
-    &c1241::OPS,
-    &c1249::OPS,
-    &c1257::OPS,
-    &c1265::OPS,
-    &c1273::OPS,
-    &c1281::OPS,
-    &c1289::OPS,
-    &c1297::OPS,
-    &c1305::OPS,
-    &c1313::OPS,
-    &c1321::OPS,
-    &c1329::OPS,
-    &c1337::OPS,
-    &c1345::OPS,
-    &c1353::OPS,
-    &c1361::OPS,
-    &c1369::OPS,
-    &c1377::OPS,
-    &c1385::OPS,
-    &c1393::OPS,
-    &c1401::OPS,
-    &c1409::OPS,
-    &c1417::OPS,
-    &c1425::OPS,
-    &c1433::OPS,
-    &c1441::OPS,
-    &c1449::OPS,
-    &c1457::OPS,
-    &c1465::OPS,
-    &c1473::OPS,
-    &c1481::OPS,
-    &c1489::OPS,
-    &c1497::OPS,
-    &c1505::OPS,
-    &c1513::OPS,
-    &c1521::OPS,
-    &c1529::OPS,
-    &c1537::OPS,
-    &c1545::OPS,
-    &c1553::OPS,
-    &c1561::OPS,
-    &c1569::OPS,
-    &c1577::OPS,
-    &c1585::OPS,
-    &c1593::OPS,
-    &c1601::OPS,
-    &c1609::OPS,
-    &c1617::OPS,
-    &c1625::OPS,
-    &c1633::OPS,
-    &c1641::OPS,
-    &c1649::OPS,
-    &c1657::OPS,
-    &c1665::OPS,
-    &c1673::OPS,
-    &c1681::OPS,
-    &c1689::OPS,
-    &c1697::OPS,
-    &c1705::OPS,
-    &c1713::OPS,
-    &c1721::OPS,
-    &c1729::OPS,
-    &c1737::OPS,
-    &c1745::OPS,
-    &c1753::OPS,
-    &c1761::OPS,
-    &c1769::OPS,
-    &c1777::OPS,
-    &c1785::OPS,
-    &c1793::OPS,
-    &c1801::OPS,
-    &c1809::OPS,
-    &c1817::OPS,
-    &c1825::OPS,
-    &c1833::OPS,
-    &c1841::OPS,
-    &c1849::OPS,
-    &c1857::OPS,
-    &c1865::OPS,
-    &c1873::OPS,
-    &c1881::OPS,
-    &c1889::OPS,
-    &c1897::OPS,
-    &c1905::OPS,
-    &c1913::OPS,
-    &c1921::OPS,
-    &c1929::OPS,
-    &c1937::OPS,
-    &c1945::OPS,
-    &c1953::OPS,
-    &c1961::OPS,
-    &c1969::OPS,
-    &c1977::OPS,
-    &c1985::OPS,
-    &c1993::OPS,
-    &c2001::OPS,
-    &c2009::OPS,
-    &c2017::OPS,
-    &c2025::OPS,
-    &c2033::OPS,
-    &c2041::OPS,
-    &c2049::OPS,
-    &c2057::OPS,
-    &c2065::OPS,
-    &c2073::OPS,
-    &c2081::OPS,
-    &c2089::OPS,
-];
+// placeholder written by harness/gen/zoo.py (the real file is a build artefact of bin/check C06)
+pub const GEN_HASH: &str = "placeholder";
+pub static CASES: &[&shredh::zoo::Ops] = &[];
